@@ -1,14 +1,26 @@
-"""C20 - Byte-level codecs and stager URI classification are exact (decidable part)."""
+"""C20 - Byte-level codecs and stager URI classification are exact (decidable part).
+
+All rules work on *path terms*: `_paths(fn)` enumerates the paths of a (small) function symbolically - every local is
+substituted by its defining expression over the parameters (flow-sensitive, so rebinding, temporaries, renamed locals,
+extracted-and-inlined helpers, flags, early returns vs if/else and De-Morgan variants of tests are invisible), tests are
+split at `and`/`or`/`not`, loops are executed once over havoc'd loop-carried symbols (list-building loops are summarised
+as a fold).  A rule then locates its subject *by role* in the terms ("the length argument of the to_bytes that is
+returned", "the classifier call a returned URI passed") and decides the arithmetic side conditions (lengths, tiling
+factors, nibble expressions, admitted argument ranges) by exhaustive evaluation over a small finite domain with a
+checker-internal evaluator of pure expressions (`_ev`; nothing of /repo is imported or executed).
+
+Verdicts: subject located and condition holds -> discharged; located and the condition fails -> violated; the terms
+contain something the rule cannot model -> undecided.
+"""
 
 from __future__ import annotations
 
 import ast
+import copy
+import itertools
 import re
 
-from csverif.astutil import assignments_to, body_walk, compare_parts, const_eval, dotted, fn_calls, is_const, kwarg, NotConst, param_defaults, params, src, statements
-from csverif.astutil import pmatch, find_match
-from csverif.cfg import ENTRY, EXIT
-from csverif.q import FuncView, dominating_conditions, guarded_by, origin, raise_class, specialise
+from csverif.astutil import const_eval, dotted, NotConst, param_defaults, params, src
 
 
 def _c(node):
@@ -18,267 +30,2103 @@ def _c(node):
         return None
 
 
+# ===================================================================================================== pure evaluator
+class _NoEval(Exception):
+    """The expression is outside the modelled pure subset (nothing is known)."""
+
+
+class _Raises(_NoEval):
+    """The expression is modelled and its evaluation raises at this point of the domain."""
+
+
+_BIN = {
+    ast.Add: lambda a, b: a + b, ast.Sub: lambda a, b: a - b, ast.Mult: lambda a, b: a * b, ast.FloorDiv: lambda a, b: a // b,
+    ast.Mod: lambda a, b: a % b, ast.BitOr: lambda a, b: a | b, ast.BitAnd: lambda a, b: a & b, ast.BitXor: lambda a, b: a ^ b,
+    ast.LShift: lambda a, b: a << b, ast.RShift: lambda a, b: a >> b, ast.Div: lambda a, b: a / b,
+}
+_CMP = {
+    ast.Eq: lambda a, b: a == b, ast.NotEq: lambda a, b: a != b, ast.Lt: lambda a, b: a < b, ast.LtE: lambda a, b: a <= b,
+    ast.Gt: lambda a, b: a > b, ast.GtE: lambda a, b: a >= b, ast.Is: lambda a, b: a is b, ast.IsNot: lambda a, b: a is not b,
+    ast.In: lambda a, b: a in b, ast.NotIn: lambda a, b: a not in b,
+}
+_SEQ = (bytes, bytearray, str, list, tuple, range)
+_BIG = 1 << 16
+
+
+def _ceil(x):
+    import math
+
+    return math.ceil(x)
+
+
+_FUNCS = {
+    "len": len, "min": min, "max": max, "abs": abs, "int": int, "bool": bool, "divmod": divmod, "range": range, "sum": sum,
+    "bytes": bytes, "bytearray": bytearray, "list": list, "tuple": tuple, "any": any, "all": all, "ord": ord, "chr": chr,
+    "set": set, "frozenset": frozenset, "sorted": sorted, "reversed": lambda x: list(reversed(x)), "enumerate": lambda x, start=0: list(enumerate(x, start)),
+    "zip": lambda *a: list(zip(*a)), "math.ceil": _ceil, "ceil": _ceil, "memoryview": bytes, "str": str,
+}
+_METHODS = {"bit_length": (int,), "count": (bytes, bytearray, str, list, tuple), "strip": (bytes, bytearray, str), "lstrip": (bytes, bytearray, str),
+            "rstrip": (bytes, bytearray, str), "startswith": (bytes, bytearray, str), "endswith": (bytes, bytearray, str), "replace": (bytes, bytearray, str),
+            "isalnum": (str,), "isascii": (str, bytes), "upper": (str, bytes), "lower": (str, bytes), "index": (bytes, bytearray, str, list, tuple),
+            "find": (bytes, bytearray, str)}
+
+
+def _ev(e, env=None):
+    """Value of a pure expression over `env` (name -> Python value).  Raises _NoEval outside the modelled subset and
+    _Raises when the modelled evaluation itself raises."""
+    env = env or {}
+    try:
+        return _ev1(e, env)
+    except _NoEval:
+        raise
+    except (ZeroDivisionError, IndexError, KeyError, TypeError, ValueError, OverflowError, AttributeError) as x:
+        raise _Raises(f"{type(x).__name__}: {x}")
+    except (RecursionError, MemoryError):
+        raise _NoEval("too large")
+
+
+def _ev1(e, env):
+    if isinstance(e, ast.Constant):
+        return e.value
+    if isinstance(e, ast.Name):
+        if e.id in env:
+            return env[e.id]
+        raise _NoEval(e.id)
+    if isinstance(e, (ast.Tuple, ast.List, ast.Set)):
+        if any(isinstance(x, ast.Starred) for x in e.elts):
+            raise _NoEval("starred")
+        vals = [_ev1(x, env) for x in e.elts]
+        return tuple(vals) if isinstance(e, ast.Tuple) else list(vals) if isinstance(e, ast.List) else set(vals)
+    if isinstance(e, ast.UnaryOp):
+        v = _ev1(e.operand, env)
+        if isinstance(e.op, ast.Not):
+            return not v
+        if isinstance(e.op, ast.USub):
+            return -v
+        if isinstance(e.op, ast.UAdd):
+            return +v
+        return ~v
+    if isinstance(e, ast.BinOp):
+        if type(e.op) not in _BIN:
+            raise _NoEval(src(e))
+        a, b = _ev1(e.left, env), _ev1(e.right, env)
+        if isinstance(e.op, ast.Mult) and ((isinstance(a, _SEQ) and isinstance(b, int) and b * max(len(a), 1) > _BIG) or (isinstance(b, _SEQ) and isinstance(a, int) and a * max(len(b), 1) > _BIG)):
+            raise _NoEval("too large")
+        if isinstance(e.op, ast.LShift) and isinstance(b, int) and b > 256:
+            raise _NoEval("too large")
+        return _BIN[type(e.op)](a, b)
+    if isinstance(e, ast.BoolOp):
+        v = None
+        for x in e.values:
+            v = _ev1(x, env)
+            if isinstance(e.op, ast.And) and not v:
+                return v
+            if isinstance(e.op, ast.Or) and v:
+                return v
+        return v
+    if isinstance(e, ast.Compare):
+        l = _ev1(e.left, env)
+        for op, r in zip(e.ops, e.comparators):
+            rv = _ev1(r, env)
+            if not _CMP[type(op)](l, rv):
+                return False
+            l = rv
+        return True
+    if isinstance(e, ast.IfExp):
+        return _ev1(e.body, env) if _ev1(e.test, env) else _ev1(e.orelse, env)
+    if isinstance(e, ast.Subscript):
+        base = _ev1(e.value, env)
+        if not isinstance(base, _SEQ + (dict,)):
+            raise _NoEval(src(e))
+        if isinstance(e.slice, ast.Slice):
+            lo, hi, st = (None if x is None else _ev1(x, env) for x in (e.slice.lower, e.slice.upper, e.slice.step))
+            return base[lo:hi:st]
+        return base[_ev1(e.slice, env)]
+    if isinstance(e, (ast.ListComp, ast.GeneratorExp, ast.SetComp)):
+        out = []
+        _comp(e.generators, 0, e.elt, dict(env), out)
+        return set(out) if isinstance(e, ast.SetComp) else out
+    if isinstance(e, ast.Call):
+        if any(isinstance(a, ast.Starred) for a in e.args) or any(k.arg is None for k in e.keywords):
+            raise _NoEval("starred")
+        name = dotted(e.func)
+        if name in _FUNCS and name not in env:
+            args = [_ev1(a, env) for a in e.args]
+            kw = {k.arg: _ev1(k.value, env) for k in e.keywords}
+            if name == "range":
+                r = range(*args)
+                if len(r) > _BIG:
+                    raise _NoEval("too large")
+                return r
+            if name in ("bytes", "bytearray") and args and isinstance(args[0], int) and args[0] > _BIG:
+                raise _NoEval("too large")
+            if name == "map":
+                raise _NoEval("map")
+            return _FUNCS[name](*args, **kw)
+        if name == "map" and len(e.args) == 2 and dotted(e.args[0]) in ("ord", "int", "abs", "bool"):
+            return [_FUNCS[dotted(e.args[0])](x) for x in _ev1(e.args[1], env)]
+        if isinstance(e.func, ast.Attribute) and e.func.attr in _METHODS:
+            recv = _ev1(e.func.value, env)
+            if isinstance(recv, _METHODS[e.func.attr]) and not isinstance(recv, bool):
+                args = [_ev1(a, env) for a in e.args]
+                return getattr(recv, e.func.attr)(*args)
+        raise _NoEval(src(e))
+    raise _NoEval(type(e).__name__)
+
+
+def _comp(gens, i, elt, env, out):
+    if i == len(gens):
+        out.append(_ev1(elt, env))
+        if len(out) > _BIG:
+            raise _NoEval("too large")
+        return
+    g = gens[i]
+    if g.is_async:
+        raise _NoEval("async")
+    for v in _ev1(g.iter, env):
+        _bind_target(g.target, v, env)
+        if all(_ev1(c, env) for c in g.ifs):
+            _comp(gens, i + 1, elt, env, out)
+
+
+def _bind_target(t, v, env):
+    if isinstance(t, ast.Name):
+        env[t.id] = v
+    elif isinstance(t, (ast.Tuple, ast.List)) and not any(isinstance(x, ast.Starred) for x in t.elts):
+        vs = list(v)
+        if len(vs) != len(t.elts):
+            raise ValueError("unpack")
+        for x, y in zip(t.elts, vs):
+            _bind_target(x, y, env)
+    else:
+        raise _NoEval("target")
+
+
+def _truth(e, env):
+    """True / False / None (not evaluable); an evaluation that raises counts as 'raises'."""
+    try:
+        return bool(_ev(e, env))
+    except _Raises:
+        return "raises"
+    except _NoEval:
+        return None
+
+
+class _Abstract(ast.NodeTransformer):
+    """Replace every sub-expression whose text is a key of `binds` by the placeholder name bound to it, so that the
+    evaluator can treat e.g. `len(data)`, `n.bit_length()` or a classifier call as one integer/boolean unknown."""
+
+    def __init__(self, binds):
+        self.binds = binds
+
+    def visit(self, node):
+        if isinstance(node, ast.expr):
+            k = self.binds.get(src(node))
+            if k is not None:
+                return ast.Name(id=k, ctx=ast.Load())
+        return super().visit(node)
+
+
+def _abstract(e, binds):
+    return _Abstract(binds).visit(copy.deepcopy(e))
+
+
+def _names(e):
+    return {n.id for n in ast.walk(e) if isinstance(n, ast.Name)}
+
+
+def _k(e):
+    """Structural key of a term; two call nodes are the same value only when they stem from the same evaluation of the
+    same call site (`_site` tags set by the path executor)."""
+    if isinstance(e, ast.AST):
+        return (type(e).__name__, getattr(e, "_site", None)) + tuple(_k(getattr(e, f, None)) for f in e._fields if f != "ctx")
+    if isinstance(e, list):
+        return tuple(_k(x) for x in e)
+    return e
+
+
+# ===================================================================================================== path executor
+class _Unsupported(Exception):
+    pass
+
+
+class _St:
+    __slots__ = ("env", "conds", "events", "visited", "end")
+
+    def __init__(self, env=None, conds=None, events=None, visited=None):
+        self.env = env if env is not None else {}
+        self.conds = conds if conds is not None else []
+        self.events = events if events is not None else []
+        self.visited = visited if visited is not None else []
+        self.end = None
+
+    def fork(self):
+        return _St(dict(self.env), list(self.conds), list(self.events), list(self.visited))
+
+    def add(self, conds):
+        """Add path conditions; False when they contradict the path so far."""
+        for a, pol in conds:
+            ka = _k(a)
+            for b, p2 in self.conds:
+                if _k(b) == ka:
+                    if p2 != pol:
+                        return False
+                    break
+            else:
+                self.conds.append((a, pol))
+        return True
+
+
+_MUTATORS = {"insert", "pop", "remove", "reverse", "sort", "clear", "update", "add", "discard", "setdefault", "popitem", "appendleft"}
+
+
+def _target_names(t):
+    if isinstance(t, ast.Name):
+        return [t.id]
+    if isinstance(t, (ast.Tuple, ast.List)):
+        return [n for x in t.elts for n in _target_names(x)]
+    if isinstance(t, ast.Starred):
+        return _target_names(t.value)
+    return []
+
+
+def _assigned(stmts):
+    """Local names (re)bound or mutated in place by the statements."""
+    out = set()
+    for st in stmts:
+        for n in ast.walk(st):
+            if isinstance(n, ast.Assign):
+                for t in n.targets:
+                    out.update(_target_names(t))
+                    if isinstance(t, ast.Subscript) and isinstance(t.value, ast.Name):
+                        out.add(t.value.id)
+            elif isinstance(n, (ast.AugAssign, ast.AnnAssign)):
+                out.update(_target_names(n.target))
+                if isinstance(n.target, ast.Subscript) and isinstance(n.target.value, ast.Name):
+                    out.add(n.target.value.id)
+            elif isinstance(n, (ast.For, ast.AsyncFor)):
+                out.update(_target_names(n.target))
+            elif isinstance(n, ast.NamedExpr):
+                out.update(_target_names(n.target))
+            elif isinstance(n, (ast.With, ast.AsyncWith)):
+                for it in n.items:
+                    if it.optional_vars is not None:
+                        out.update(_target_names(it.optional_vars))
+            elif isinstance(n, ast.ExceptHandler) and n.name:
+                out.add(n.name)
+            elif isinstance(n, ast.Expr) and isinstance(n.value, ast.Call) and isinstance(n.value.func, ast.Attribute) and isinstance(n.value.func.value, ast.Name):
+                if n.value.func.attr in _MUTATORS or n.value.func.attr in ("append", "extend"):
+                    out.add(n.value.func.value.id)
+    return out
+
+
+class _Loop:
+    def __init__(self, stmt, k):
+        self.stmt, self.k = stmt, k
+        self.pre = {}  # name -> term before the loop
+        self.head = {}  # name -> symbol name at the loop head
+        self.iter = None  # substituted iterable (for loops)
+        self.iters = []  # states at the end of one complete iteration
+        self.exits = 0  # break / return / raise paths out of the body
+
+
+class _Exec:
+    MAX = 600
+
+    def __init__(self, fn, preset=None, resolver=None, depth=0):
+        self.fn = fn
+        self.resolver, self.depth = resolver, depth
+        self.preset = dict(preset or {})
+        self.sites = itertools.count(1)
+        self.syms = itertools.count(1)
+        self.loops = {}
+        self.locals = _assigned(fn.body) | set(params(fn))
+
+    # ------------------------------------------------------------------ expressions
+    def sub(self, e, st):
+        ex = self
+
+        class S(ast.NodeTransformer):
+            def __init__(self):
+                self.shadow = []
+
+            def shadowed(self, n):
+                return any(n in s for s in self.shadow)
+
+            def visit_Name(self, n):
+                if isinstance(n.ctx, ast.Load) and n.id in st.env and not self.shadowed(n.id):
+                    return copy.deepcopy(st.env[n.id])
+                return n
+
+            def visit_Call(self, n):
+                n._site = next(ex.sites)
+                self.generic_visit(n)
+                return n
+
+            def visit_NamedExpr(self, n):
+                v = self.visit(n.value)
+                if isinstance(n.target, ast.Name) and not self.shadowed(n.target.id):
+                    st.env[n.target.id] = v
+                return v
+
+            def visit_IfExp(self, n):
+                self.generic_visit(n)
+                t = _truth(n.test, {})
+                if t is True:
+                    return n.body
+                if t is False:
+                    return n.orelse
+                return n
+
+            def _comp(self, n):
+                names = set()
+                for g in n.generators:
+                    names.update(_target_names(g.target))
+                first = n.generators[0]
+                first.iter = self.visit(first.iter)
+                self.shadow.append(names)
+                for i, g in enumerate(n.generators):
+                    if i:
+                        g.iter = self.visit(g.iter)
+                    g.ifs = [self.visit(c) for c in g.ifs]
+                if isinstance(n, ast.DictComp):
+                    n.key, n.value = self.visit(n.key), self.visit(n.value)
+                else:
+                    n.elt = self.visit(n.elt)
+                self.shadow.pop()
+                return n
+
+            visit_ListComp = visit_GeneratorExp = visit_SetComp = visit_DictComp = _comp
+
+            def visit_Lambda(self, n):
+                self.shadow.append(set(params(n)))
+                n.body = self.visit(n.body)
+                self.shadow.pop()
+                return n
+
+        return S().visit(copy.deepcopy(e))
+
+    def split(self, t):
+        """Decision alternatives of a (substituted) test: [(conditions, outcome)] with short-circuit semantics."""
+        if isinstance(t, ast.UnaryOp) and isinstance(t.op, ast.Not):
+            return [(c, not o) for c, o in self.split(t.operand)]
+        if isinstance(t, ast.BoolOp):
+            stop = not isinstance(t.op, ast.And)  # the outcome that short-circuits
+            alts = [([], not stop)]
+            for v in t.values:
+                new = []
+                for c, o in alts:
+                    if o == stop:
+                        new.append((c, o))
+                    else:
+                        new.extend((c + c2, o2) for c2, o2 in self.split(v))
+                alts = new
+            return alts
+        if isinstance(t, ast.Call) and dotted(t.func) == "bool" and len(t.args) == 1 and not t.keywords:
+            return self.split(t.args[0])
+        v = _truth(t, {})
+        if v in (True, False):
+            return [([], v)]
+        inl = self.inline_test(t)
+        if inl is not None:
+            return inl
+        return [([(t, True)], True), ([(t, False)], False)]
+
+    def inline_test(self, call):
+        """A test that is a call of a small repository helper (`self.resolver(call)` -> (function node, skip-self)):
+        the helper's own returning paths, with its parameters bound to the argument terms, replace the opaque call."""
+        if self.resolver is None or not isinstance(call, ast.Call) or self.depth >= 3:
+            return None
+        r = self.resolver(call)
+        if r is None:
+            return None
+        fn, skip = r
+        a = fn.args
+        if a.vararg or a.kwarg or any(isinstance(x, ast.Starred) for x in call.args) or any(k.arg is None for k in call.keywords):
+            return None
+        names = [x.arg for x in a.posonlyargs + a.args][(1 if skip else 0):]
+        preset = {}
+        if len(call.args) > len(names):
+            return None
+        for n, x in zip(names, call.args):
+            preset[n] = x
+        for k in call.keywords:
+            if k.arg in preset or k.arg not in names + [x.arg for x in a.kwonlyargs]:
+                return None
+            preset[k.arg] = k.value
+        dflt = param_defaults(fn)
+        for n in names + [x.arg for x in a.kwonlyargs]:
+            if n not in preset:
+                if n not in dflt:
+                    return None
+                preset[n] = dflt[n]
+        sub = _Exec(fn, preset, self.resolver, self.depth + 1)
+        sub.sites, sub.syms = self.sites, self.syms
+        try:
+            states = sub.run()
+        except (_Unsupported, RecursionError):
+            return None
+        if sub.loops or not states or any(b.end[0] != "return" or b.end[1] is None for b in states):
+            return None
+        out = []
+        for b in states:
+            for c2, o2 in self.split(b.end[1]):
+                out.append((list(b.conds) + c2, o2))
+        return out if len(out) <= 32 else None
+
+    def values(self, v, st):
+        """(state, value) alternatives of an already substituted value: a top-level conditional expression forks."""
+        if isinstance(v, ast.IfExp):
+            out = []
+            for c, o in self.split(v.test):
+                s2 = st.fork()
+                if s2.add(c):
+                    out.extend(self.values(v.body if o else v.orelse, s2))
+            return out
+        return [(st, v)]
+
+    # ------------------------------------------------------------------ statements
+    def bind(self, t, v, st):
+        if isinstance(t, ast.Name):
+            st.env[t.id] = v
+        elif isinstance(t, (ast.Tuple, ast.List)) and not any(isinstance(x, ast.Starred) for x in t.elts):
+            if isinstance(v, (ast.Tuple, ast.List)) and len(v.elts) == len(t.elts) and not any(isinstance(x, ast.Starred) for x in v.elts):
+                for x, y in zip(t.elts, v.elts):
+                    self.bind(x, y, st)
+            else:
+                for i, x in enumerate(t.elts):
+                    self.bind(x, ast.Subscript(value=copy.deepcopy(v), slice=ast.Constant(value=i), ctx=ast.Load()), st)
+        elif isinstance(t, ast.Subscript) and isinstance(t.value, ast.Name):
+            st.env[t.value.id] = ast.Call(func=ast.Name(id="$mut", ctx=ast.Load()), args=[st.env.get(t.value.id, t.value)], keywords=[])
+        else:
+            for n in _target_names(t):
+                st.env[n] = ast.Name(id=f"{n}@{next(self.syms)}", ctx=ast.Load())
+
+    def block(self, stmts, states):
+        for s in stmts:
+            out = []
+            for st in states:
+                if st.end is not None:
+                    out.append(st)
+                else:
+                    out.extend(self.stmt(s, st))
+            states = out
+            if len(states) > self.MAX:
+                raise _Unsupported("too many paths")
+        return states
+
+    def stmt(self, s, st):
+        st.visited.append(s)
+        if isinstance(s, (ast.Assign, ast.AnnAssign)):
+            if s.value is None:
+                return [st]
+            out = []
+            for s2, v in self.values(self.sub(s.value, st), st):
+                s2.events.append((s, v))
+                for t in (s.targets if isinstance(s, ast.Assign) else [s.target]):
+                    self.bind(t, v, s2)
+                out.append(s2)
+            return out
+        if isinstance(s, ast.AugAssign):
+            v = self.sub(s.value, st)
+            st.events.append((s, v))
+            if isinstance(s.target, ast.Name):
+                cur = st.env.get(s.target.id, ast.Name(id=s.target.id, ctx=ast.Load()))
+                st.env[s.target.id] = ast.BinOp(left=copy.deepcopy(cur), op=s.op, right=v)
+            else:
+                self.bind(s.target, v, st)
+            return [st]
+        if isinstance(s, ast.Expr):
+            v = self.sub(s.value, st)
+            st.events.append((s, v))
+            c = s.value
+            if isinstance(c, ast.Call) and isinstance(c.func, ast.Attribute) and isinstance(c.func.value, ast.Name) and c.func.value.id in self.locals and isinstance(v, ast.Call):
+                n, a = c.func.value.id, c.func.attr
+                if a in ("append", "extend") or a in _MUTATORS:
+                    st.env[n] = ast.Call(func=ast.Name(id="$" + (a if a in ("append", "extend") else "mut"), ctx=ast.Load()), args=[v.func.value] + list(v.args), keywords=[])
+            return [st]
+        if isinstance(s, ast.If):
+            out = []
+            for c, o in self.split(self.sub(s.test, st)):
+                s2 = st.fork()
+                if s2.add(c):
+                    out.extend(self.block(s.body if o else s.orelse, [s2]))
+            return out
+        if isinstance(s, ast.Return):
+            if s.value is None:
+                st.end = ("return", None, s)
+                return [st]
+            out = []
+            for s2, v in self.values(self.sub(s.value, st), st):
+                s2.events.append((s, v))
+                s2.end = ("return", v, s)
+                out.append(s2)
+            return out
+        if isinstance(s, ast.Raise):
+            st.end = ("raise", self.sub(s.exc, st) if s.exc is not None else None, s)
+            return [st]
+        if isinstance(s, ast.Break):
+            st.end = ("break", None, s)
+            return [st]
+        if isinstance(s, ast.Continue):
+            st.end = ("continue", None, s)
+            return [st]
+        if isinstance(s, (ast.Pass, ast.Import, ast.ImportFrom, ast.Global, ast.Nonlocal, ast.Delete)):
+            return [st]
+        if isinstance(s, ast.Assert):
+            out = []
+            for c, o in self.split(self.sub(s.test, st)):
+                s2 = st.fork()
+                if s2.add(c):
+                    if not o:
+                        s2.end = ("raise", None, s)
+                    out.append(s2)
+            return out
+        if isinstance(s, (ast.FunctionDef, ast.AsyncFunctionDef, ast.ClassDef)):
+            st.env[s.name] = ast.Name(id=f"{s.name}@def", ctx=ast.Load())
+            return [st]
+        if isinstance(s, (ast.While, ast.For)):
+            return self.loop(s, st)
+        if isinstance(s, ast.Try):
+            return self.try_(s, st)
+        if isinstance(s, ast.With):
+            for it in s.items:
+                st.events.append((s, self.sub(it.context_expr, st)))
+                if it.optional_vars is not None:
+                    for n in _target_names(it.optional_vars):
+                        st.env[n] = ast.Name(id=f"{n}@{next(self.syms)}", ctx=ast.Load())
+            return self.block(s.body, [st])
+        raise _Unsupported(type(s).__name__)
+
+    def loop(self, s, st):
+        k = next(self.syms)
+        lp = _Loop(s, k)
+        self.loops[k] = lp
+        names = _assigned(s.body) | (set(_target_names(s.target)) if isinstance(s, ast.For) else set())
+        lp.pre = {n: st.env.get(n) for n in names}
+        if isinstance(s, ast.For):
+            lp.iter = self.sub(s.iter, st)
+            st.events.append((s, lp.iter))
+        head = st.fork()
+        for n in names:
+            lp.head[n] = f"{n}@{k}"
+            head.env[n] = ast.Name(id=lp.head[n], ctx=ast.Load())
+        out = []
+        after = []
+        if isinstance(s, ast.While):
+            alts = self.split(self.sub(s.test, head))
+        else:
+            alts = [([], True), ([], False)]
+        for c, o in alts:
+            s2 = head.fork()
+            if not s2.add(c):
+                continue
+            if not o:
+                after.extend(self.block(s.orelse, [s2]))
+                continue
+            for b in self.block(s.body, [s2]):
+                if b.end is None or b.end[0] == "continue":
+                    b.end = None
+                    lp.iters.append(b)
+                elif b.end[0] == "break":
+                    b.end = None
+                    lp.exits += 1
+                    after.append(b)
+                else:
+                    lp.exits += 1
+                    out.append(b)
+        return out + after
+
+    def try_(self, s, st):
+        names = _assigned(s.body)
+        out = []
+        for b in self.block(s.body, [st.fork()]):
+            if b.end is None:
+                out.extend(self.block(s.orelse, [b]))
+            else:
+                out.append(b)
+        for h in s.handlers:
+            hs = st.fork()
+            hs.visited.extend(x for b in s.body for x in ast.walk(b) if isinstance(x, ast.stmt))
+            k = next(self.syms)
+            for n in names:
+                hs.env[n] = ast.Name(id=f"{n}@{k}", ctx=ast.Load())
+            if h.name:
+                hs.env[h.name] = ast.Name(id=f"{h.name}@{k}", ctx=ast.Load())
+            hs.conds.append((ast.Name(id=f"$except@{k}", ctx=ast.Load()), True))
+            out.extend(self.block(h.body, [hs]))
+        res = []
+        for b in out:
+            if b.end is None and s.finalbody:
+                res.extend(self.block(s.finalbody, [b]))
+            else:
+                res.append(b)
+        return res
+
+    def run(self):
+        st = _St(dict(self.preset))
+        states = self.block(self.fn.body, [st])
+        for b in states:
+            if b.end is None:
+                b.end = ("fall", None, None)
+        return states
+
+
+def _paths(fn, preset=None, resolver=None):
+    ex = _Exec(fn, preset, resolver)
+    return ex, ex.run()
+
+
+def _helper_resolver(ctx, f, keep):
+    """Resolver for `_Exec.inline_test`: calls of repository functions/methods (resolved from f's module, `self.m(..)`
+    through f's class) other than the ones in `keep`, which the rules want to see as atoms."""
+
+    def resolve(call):
+        d = dotted(call.func)
+        if d is None:
+            return None
+        skip = False
+        sym = None
+        if d.startswith("self.") and f.cls and d.count(".") == 1:
+            sym = ctx.rs.lookup_dotted(f.module.name, f"{f.cls}.{d[5:]}")
+            skip = True
+        elif d.split(".")[0] not in ("self", "cls"):
+            sym = ctx.rs.lookup_dotted(f.module.name, d)
+        if sym is None or sym.kind != "func" or sym.fq in keep or any(sym.fq.startswith(k + ".") for k in keep):
+            return None
+        m = ctx.repo.modules.get(sym.module)
+        g = m.funcs.get(sym.name) if m else None
+        if g is None or g.node is f.node or not isinstance(g.node, ast.FunctionDef):
+            return None
+        if any(isinstance(x, ast.Name) and x.id in ("staticmethod", "classmethod", "property") for x in g.node.decorator_list):
+            return None
+        if skip is False and g.cls:
+            return None
+        if sum(1 for _ in ast.walk(g.node)) > 400:
+            return None
+        return g.node, skip
+
+    return resolve
+
+
+# ===================================================================================================== shared helpers
+_VIEWS = ("bytes", "bytearray", "memoryview", "list", "tuple")
+
+
+def _strip_view(e):
+    """bytes(x) / bytearray(x) / memoryview(x) / list(x) / tuple(x): the same sequence of byte values as x."""
+    while isinstance(e, ast.Call) and dotted(e.func) in _VIEWS and len(e.args) == 1 and not e.keywords:
+        e = e.args[0]
+    return e
+
+
+def _unview(e, names):
+    """A copy of the term in which value-preserving views of the named parameters (bytes(p), bytearray(p), ..) are
+    replaced by the parameter itself."""
+
+    class V(ast.NodeTransformer):
+        def visit_Call(self, n):
+            self.generic_visit(n)
+            if dotted(n.func) in _VIEWS and len(n.args) == 1 and not n.keywords and isinstance(n.args[0], ast.Name) and n.args[0].id in names:
+                return n.args[0]
+            return n
+
+    return V().visit(copy.deepcopy(e))
+
+
+def _is_param(e, p):
+    return isinstance(e, ast.Name) and e.id == p
+
+
+def _mentions(e, p):
+    return e is not None and any(isinstance(n, ast.Name) and n.id == p for n in ast.walk(e))
+
+
+def _callargs(call, names, skip=0):
+    """Positional/keyword arguments of a call bound to the parameter names of a (builtin) signature; None on surplus."""
+    out = {}
+    args = list(call.args)[skip:]
+    if len(args) > len(names) or any(isinstance(a, ast.Starred) for a in args):
+        return None
+    for n, a in zip(names, args):
+        out[n] = a
+    for kw in call.keywords:
+        if kw.arg is None or kw.arg not in names or kw.arg in out:
+            return None
+        out[kw.arg] = kw.value
+    return out
+
+
+def _to_bytes(e):
+    """`int.to_bytes(v, length, byteorder, signed=..)` / `v.to_bytes(length, byteorder, signed=..)` -> dict or None."""
+    if not (isinstance(e, ast.Call) and isinstance(e.func, ast.Attribute) and e.func.attr == "to_bytes"):
+        return None
+    if dotted(e.func.value) == "int":
+        if not e.args:
+            return None
+        b = _callargs(e, ["length", "byteorder", "signed"], skip=1)
+        v = e.args[0]
+    else:
+        b = _callargs(e, ["length", "byteorder", "signed"])
+        v = e.func.value
+    if b is None:
+        return None
+    return {"value": v, "length": b.get("length", ast.Constant(value=1)), "byteorder": b.get("byteorder", ast.Constant(value="big")), "signed": b.get("signed", ast.Constant(value=False))}
+
+
+def _from_bytes(e):
+    if not (isinstance(e, ast.Call) and dotted(e.func) == "int.from_bytes" and e.args):
+        return None
+    b = _callargs(e, ["bytes", "byteorder", "signed"])
+    if b is None or "bytes" not in b:
+        return None
+    return {"bytes": b["bytes"], "byteorder": b.get("byteorder", ast.Constant(value="big")), "signed": b.get("signed", ast.Constant(value=False))}
+
+
+_HARMLESS = {"len", "startswith", "endswith", "decode", "encode", "lower", "upper", "strip", "lstrip", "rstrip", "isalnum", "isascii", "isalpha", "isdigit",
+             "find", "rfind", "index", "count", "bool", "str", "bytes", "int", "ord", "isinstance", "get", "split", "partition", "rpartition"}
+
+
+def _could_classify(a):
+    """Can the condition possibly embody a stager classification of its argument?  Only when it calls something other
+    than builtin string predicates/accessors (whose result cannot depend on a checksum)."""
+    for n in ast.walk(a):
+        if isinstance(n, ast.Call):
+            last = n.func.attr if isinstance(n.func, ast.Attribute) else dotted(n.func)
+            if last not in _HARMLESS:
+                return True
+    return False
+
+
+def _cond_text(conds):
+    return [("" if pol else "not ") + src(a) for a, pol in conds]
+
+
+def _feasible(st, env, about=()):
+    """Are the path conditions of `st` consistent with the valuation `env`?  -> (feasible, unknown conditions that
+    mention one of the names in `about`)."""
+    unknown = []
+    for a, pol in st.conds:
+        t = _truth(a, env)
+        if t is None:
+            if any(_mentions(a, p) for p in about):
+                unknown.append(a)
+            continue
+        if t == "raises":
+            return False, unknown
+        if t != pol:
+            return False, unknown
+    return True, unknown
+
+
+# ===================================================================================================== run
 def run(ctx):
     rep = ctx.rep
     rep.explanation = (
-        "Static analysis of utils.py and pcap.find_staged_beacon: xor() returns either its input or int.to_bytes(.., "
-        "len(data), ..) (length preserving), takes the identity shortcut exactly on sum(key) == 0, tiles and cuts the key "
-        "to the data length; the table of pack/unpack partials is compared completely with the widths/byte orders their "
-        "names promise; classifier constants; a generated stager URI is returned only under its own classifier; the staged "
-        "beacon extraction is dominated by a positive stager test when the request is known; NetBIOS nibble order agrees "
-        "between encoder and decoder."
+        "Static analysis of utils.py and pcap.find_staged_beacon on symbolic path terms (locals substituted by their definitions over "
+        "the parameters, tests split at and/or/not): xor() returns its input on exactly the paths an empty key takes and never for a "
+        "key with a non-zero byte, otherwise int.to_bytes(from_bytes(data) ^ from_bytes(keystream), len(data), ..) with one byte order "
+        "and a keystream that is the key repeated and cut to len(data) (lengths and tiling factor decided exhaustively over small "
+        "lengths); the pack/unpack partials are compared completely with the widths/byte orders their names promise and pack/unpack "
+        "pass byteorder/signed through; checksum8 and the classifier constants/regular language are decided over the finite checksum "
+        "domain and probe strings; a generated stager URI is returned only on the true edge of its own classifier applied to that very "
+        "value; the staged beacon extraction is reachable with a known request only on paths with a positive stager test of the "
+        "request URI; the NetBIOS decoder applied to the encoder's two symbols gives back every byte for every probed offset."
     )
-    rep.not_decided = ["self-inverse / inverse laws over all inputs", "odd-length NetBIOS input", "width limits of pack()"]
-    rep.trusted_base = ["CPython ast", "networkx dominators", "int.from_bytes / to_bytes semantics"]
-    r1(ctx)
-    r2(ctx)
-    r3(ctx)
-    r4(ctx)
-    r5(ctx)
-    r6(ctx)
+    rep.not_decided = ["self-inverse / inverse laws over all inputs (only the structural conditions and bounded arithmetic)", "odd-length NetBIOS input", "width limits of pack()"]
+    rep.trusted_base = ["CPython ast", "int.from_bytes / to_bytes semantics", "CPython re (for the x64 URI pattern only)", "checker-internal evaluator of pure expressions"]
+    from csverif import AnalysisError
+
+    for rule, fn, anchor in (("R1", r1, "utils.py::xor"), ("R2", r2, "utils.py::pack/unpack"), ("R3", r3, "utils.py::checksum8"), ("R4", r4, "utils.py::random_stager_uri"),
+                             ("R5", r5, "pcap.py::BeaconCapture.find_staged_beacon"), ("R6", r6, "utils.py::netbios")):
+        try:
+            fn(ctx)
+        except AnalysisError:
+            raise
+        except Exception as e:  # a shape the rule did not anticipate: nothing is claimed about it
+            ctx.undecided(rule, "ABS", anchor, "rule evaluation", f"the code has a shape the rule does not model ({type(e).__name__}: {str(e)[:120]})")
+            rep.notes.append(f"{rule}: not evaluated ({type(e).__name__}: {str(e)[:200]})")
+
+
+def _try_paths(ctx, rule, kind, f, text, preset=None, resolver=None):
+    try:
+        return _paths(f.node, preset, resolver)
+    except _Unsupported as e:
+        ctx.undecided(rule, kind, f, text, f"the function body uses a construct the path executor does not model ({e})")
+        return None, None
+    except RecursionError:
+        ctx.undecided(rule, kind, f, text, "the function body is too deeply nested for the path executor")
+        return None, None
+
+
+# ===================================================================================================== R1 xor
+_KEY_REPS = {
+    "E": [b""],
+    "Z": [b"\x00", b"\x00\x00\x00"],
+    "N": [b"\x01", b"\x00\x05", b"\x07\x00", b"\xff\xff\x03", b"\x80\x80", b"\x00\x00\x09\x00", b"\x02" * 9, b"\x00" * 6 + b"\x01", b"\x01" + b"\x00" * 6,
+          b"\x00" * 17 + b"\x40", bytes(range(256))],
+}
+_DATA_REPS = [b"", b"a", b"\x00\x00", b"abcdef", b"\x01\x02\x03\x04\x05\x06\x07\x08\x09\x0a\x0b"]
+
+
+def _bpat(n, seed):
+    return bytes(((i * seed + 1) % 255) + 1 for i in range(n))
+
+
+def _xor_elementwise(v, data, key):
+    """bytes(a ^ b for a, b in zip(data, cycle(key))) and the two index forms -> True (periodic key, length of data),
+    False (located but wrong), None (not this shape)."""
+    inner = v
+    if isinstance(v, ast.Call) and dotted(v.func) in ("bytes", "bytearray") and len(v.args) == 1 and not v.keywords:
+        inner = v.args[0]
+    if not (isinstance(inner, (ast.GeneratorExp, ast.ListComp)) and len(inner.generators) == 1 and not inner.generators[0].ifs):
+        return None
+    g = inner.generators[0]
+    elt = inner.elt
+    if not (isinstance(elt, ast.BinOp) and isinstance(elt.op, ast.BitXor)):
+        return None
+    it = g.iter
+    tn = _target_names(g.target)
+    sides = [elt.left, elt.right]
+    if isinstance(it, ast.Call) and dotted(it.func) == "zip" and len(it.args) == 2 and len(tn) == 2 and isinstance(g.target, (ast.Tuple, ast.List)):
+        roles = {}
+        for name, a in zip(tn, it.args):
+            if _is_param(_strip_view(a), data):
+                roles[name] = "data"
+            elif isinstance(a, ast.Call) and dotted(a.func) in ("cycle", "itertools.cycle") and len(a.args) == 1 and _is_param(_strip_view(a.args[0]), key):
+                roles[name] = "key"
+        got = sorted(roles.get(dotted(s), "?") for s in sides)
+        if "?" in got:
+            return None
+        return got == ["data", "key"]
+    # index forms: the index runs over range(len(data)) / enumerate(data)
+    idx = None
+    dexp = None
+    if isinstance(it, ast.Call) and dotted(it.func) == "range" and len(it.args) == 1 and len(tn) == 1 and src(it.args[0]) == f"len({data})":
+        idx = tn[0]
+    elif isinstance(it, ast.Call) and dotted(it.func) == "enumerate" and len(it.args) == 1 and len(tn) == 2 and _is_param(_strip_view(it.args[0]), data):
+        idx, dexp = tn[0], tn[1]
+    if idx is None:
+        return None
+    d_side = [s for s in sides if (dexp is not None and dotted(s) == dexp) or (isinstance(s, ast.Subscript) and _is_param(s.value, data) and dotted(s.slice) == idx)]
+    k_side = [s for s in sides if isinstance(s, ast.Subscript) and _is_param(s.value, key) and not isinstance(s.slice, ast.Slice)]
+    if len(d_side) != 1 or len(k_side) != 1 or d_side[0] is k_side[0]:
+        return None
+    e = _abstract(k_side[0].slice, {f"len({key})": "$n"})
+    try:
+        return all(_ev(e, {idx: i, "$n": n}) == i % n for n in range(1, 6) for i in range(0, 14))
+    except _NoEval:
+        return None
+
+
+def _path_raises(st, env):
+    """Does one of the computations on the path raise for this valuation (so the path is left by an exception)?"""
+    for _stmt, v in st.events:
+        try:
+            _ev(v, env)
+        except _Raises:
+            return True
+        except _NoEval:
+            continue
+    return False
+
+
+def _is_handler_path(st):
+    return any(isinstance(a, ast.Name) and a.id.startswith("$except@") for a, _p in st.conds)
 
 
 def r1(ctx):
     f = ctx.repo.func("utils.xor")
-    cfg = ctx.cfg(f)
-    data, key = params(f.node)[0], params(f.node)[1]
-    rets = cfg.return_stmts()
-    kinds = []
-    for r in rets:
-        v = r.value
-        if dotted(v) == data:
-            conds = [t for t, pol, n in dominating_conditions(ctx, f, r) if pol]
-            ok = set(conds) == {f"sum({key}) == 0", f"0 == sum({key})"}
-            kinds.append("identity")
-            ctx.ob("R1", "ABS", f, "return data", ok, f"identity shortcut taken under {conds}; required exactly `sum(key) == 0` (covers empty and all-zero keys)", r)
-        elif isinstance(v, ast.Call) and dotted(v.func) in ("int.to_bytes",) or (isinstance(v, ast.Call) and isinstance(v.func, ast.Attribute) and v.func.attr == "to_bytes"):
-            kinds.append("to_bytes")
-            if dotted(v.func) == "int.to_bytes":
-                val, ln, order = v.args[0], v.args[1], v.args[2] if len(v.args) > 2 else kwarg(v, "byteorder")
+    ps = params(f.node)
+    data, key = ps[0], ps[1]
+    ex, states = _try_paths(ctx, "R1", "ABS", f, "return kinds")
+    if states is None:
+        return
+    rets = [s for s in states if s.end[0] == "return"]
+    falls = [s for s in states if s.end[0] == "fall"]
+
+    def identity(s):
+        return s.end[1] is not None and _is_param(_strip_view(s.end[1]), data)
+
+    ident = [s for s in rets if identity(s)]
+    other = [s for s in rets if not identity(s)]
+    ctx.ob("R1", "ABS", f, "return kinds", bool(rets) and not falls and all(s.end[1] is not None for s in rets),
+           f"{len(ident)} identity return path(s), {len(other)} computed return path(s), {len(falls)} path(s) falling off the end")
+
+    # ---- identity shortcut: exactly the empty key must take it; a key with a non-zero byte must never take it
+    bad, unknown = [], []
+    for cls in ("E", "Z", "N"):
+        for kr in _KEY_REPS[cls]:
+            for dr in _DATA_REPS:
+                env = {data: dr, key: kr}
+                for s in rets:
+                    feas, unk = _feasible(s, env, (data, key))
+                    if not feas:
+                        continue
+                    wrong = None
+                    if cls == "E" and not identity(s):
+                        if dr == b"" and not _path_raises(s, env):
+                            continue  # empty data with an empty key: the (empty) computed result is the data
+                        if _path_raises(s, env) and any(identity(h) and _is_handler_path(h) and _feasible(h, env)[0] for h in rets):
+                            continue  # the division by len(key) raises and an exception handler returns the data
+                        wrong = "an empty key reaches the computed result (key repetition divides by len(key))"
+                    elif cls == "N" and dr and identity(s):
+                        if _is_handler_path(s) and not any(_path_raises(t, env) for t in states if not _is_handler_path(t) and _feasible(t, env)[0]):
+                            continue  # an exception handler that nothing enters for this input
+                        wrong = f"a key with a non-zero byte ({kr!r}) returns non-empty data unchanged"
+                    if wrong:
+                        (unknown if unk else bad).append((wrong, _cond_text(s.conds)))
+    # an empty key must reach some identity return at all
+    if not ident:
+        bad.append(("no path returns the data unchanged (empty or all-zero keys are not the identity)", []))
+    if bad:
+        ctx.ob("R1", "ABS", f, "return data", False, f"identity shortcut: {bad[0][0]}; path conditions {bad[0][1]}; required: taken by every empty key, never by a key with a non-zero byte", ident[0].end[2] if ident else None)
+    elif unknown:
+        ctx.undecided("R1", "ABS", f, "return data", f"identity shortcut guarded by a test on the key/data the evaluator cannot decide: {unknown[0][1]}")
+    else:
+        ctx.ob("R1", "ABS", f, "return data", True, f"the unchanged data is returned on exactly the paths empty and all-zero keys take ({[_cond_text(s.conds) for s in ident]}), never for a key with a non-zero byte and non-empty data", ident[0].end[2])
+
+    # ---- computed result
+    for s in other:
+        v = s.end[1]
+        node = s.end[2]
+        tb = _to_bytes(v)
+        if tb is None:
+            el = _xor_elementwise(v, data, key)
+            if el is None:
+                ctx.undecided("R1", "ABS", f, "return int.to_bytes(.., len(data), ..)", f"computed result `{src(v)[:120]}` is neither int.to_bytes(from_bytes ^ from_bytes, ..) nor an element-wise XOR the rule models", node)
             else:
-                val, ln, order = v.func.value, v.args[0], v.args[1] if len(v.args) > 1 else kwarg(v, "byteorder")
-            lo = origin(f.node, ln)
-            len_ok = isinstance(lo, ast.Call) and dotted(lo.func) == "len" and dotted(lo.args[0]) == data and not [s for s, vv in assignments_to(f.node, data)]
-            # operands: from_bytes(data) ^ from_bytes(key) with the same byte order
-            fb = [c for c in ast.walk(val) if isinstance(c, ast.Call) and dotted(c.func) == "int.from_bytes"]
-            orders = {_c(c.args[1] if len(c.args) > 1 else kwarg(c, "byteorder")) for c in fb} | {_c(order)}
-            ops_ok = isinstance(val, ast.BinOp) and isinstance(val.op, ast.BitXor) and sorted(dotted(c.args[0]) for c in fb) == sorted([data, key]) and len(orders) == 1
-            ctx.ob("R1", "ABS", f, "return int.to_bytes(.., len(data), ..)", len_ok and ops_ok,
-                   f"result length is len({data})={len_ok}; value is from_bytes({data}) ^ from_bytes({key}) with one byte order {orders}={ops_ok}", r)
+                ctx.ob("R1", "ABS", f, "return int.to_bytes(.., len(data), ..)", el, "element-wise XOR of every data byte with the key repeated cyclically (one output byte per data byte)" if el else f"element-wise XOR `{src(v)[:120]}` does not pair data[i] with key[i % len(key)]", node)
+            continue
+        val = tb["value"]
+        fbs = [_from_bytes(x) for x in ((val.left, val.right) if isinstance(val, ast.BinOp) and isinstance(val.op, ast.BitXor) else ())]
+        if len(fbs) != 2 or any(x is None for x in fbs):
+            ctx.undecided("R1", "ABS", f, "return int.to_bytes(.., len(data), ..)", f"the converted value `{src(val)[:120]}` is not int.from_bytes(..) ^ int.from_bytes(..)", node)
+            continue
+        d_ops = [x for x in fbs if _is_param(_strip_view(x["bytes"]), data)]
+        k_ops = [x for x in fbs if x not in d_ops]
+        orders = [src(tb["byteorder"])] + [src(x["byteorder"]) for x in fbs]
+        signed = [_c(x["signed"]) for x in fbs] + [_c(tb["signed"])]
+        ord_ok = len(set(orders)) == 1 and all(x is False for x in signed)
+        if len(d_ops) != 1 or len(k_ops) != 1:
+            located = any(_mentions(x["bytes"], data) for x in fbs)
+            if located and len(d_ops) == 0:
+                ctx.ob("R1", "ABS", f, "return int.to_bytes(.., len(data), ..)", False, f"the data operand of the XOR is a transformed copy of the data: {[src(x['bytes'])[:80] for x in fbs]}", node)
+            else:
+                ctx.undecided("R1", "ABS", f, "return int.to_bytes(.., len(data), ..)", f"cannot tell the data operand from the key operand in {[src(x['bytes'])[:80] for x in fbs]}", node)
+            continue
+        K, L = k_ops[0]["bytes"], tb["length"]
+        len_bad = key_bad = None
+        undec = None
+        checked = 0
+        for slen in range(0, 10):
+            for n in range(1, 8):
+                env = {data: _bpat(slen, 7), key: _bpat(n, 13)}
+                feas, _unk = _feasible(s, env)
+                if not feas:
+                    continue
+                checked += 1
+                try:
+                    lv = _ev(L, env)
+                    if lv != slen and len_bad is None:
+                        len_bad = f"len(data)={slen}, len(key)={n}: length argument is {lv}"
+                except _Raises as x:
+                    len_bad = len_bad or f"len(data)={slen}, len(key)={n}: length argument raises {x}"
+                except _NoEval as x:
+                    undec = undec or f"length argument `{src(L)[:80]}` not evaluable ({x})"
+                try:
+                    kv = bytes(_ev(K, env))
+                    want = (env[key] * (slen // n + 1))[:slen]
+                    if kv != want and key_bad is None:
+                        key_bad = f"len(data)={slen}, len(key)={n}: keystream has length {len(kv)}" + ("" if len(kv) != slen else " but is not the key repeated from its first byte")
+                except _Raises as x:
+                    key_bad = key_bad or f"len(data)={slen}, len(key)={n}: keystream raises {x}"
+                except (_NoEval, TypeError, ValueError) as x:
+                    undec = undec or f"keystream `{src(K)[:80]}` not evaluable ({x})"
+        if checked == 0:
+            undec = undec or "no probed length combination takes this path"
+        if len_bad or not ord_ok:
+            ctx.ob("R1", "ABS", f, "return int.to_bytes(.., len(data), ..)", False,
+                   f"result length must be len({data}) ({len_bad or 'ok'}); one unsigned byte order for both from_bytes and to_bytes: {orders}, signed={signed} -> {ord_ok}", node)
+        elif undec and "length" in undec:
+            ctx.undecided("R1", "ABS", f, "return int.to_bytes(.., len(data), ..)", undec, node)
         else:
-            kinds.append("other")
-            ctx.ob("R1", "ABS", f, "return " + src(v), False, "unexpected return: length preservation not established", r)
-    ctx.ob("R1", "ABS", f, "return kinds", sorted(kinds) == ["identity", "to_bytes"] and not cfg.falls_off_end(), f"returns: {kinds}")
-    kd = [(st, v) for st, v in assignments_to(f.node, key)]
-    tile = [v for st, v in kd if isinstance(v, ast.BinOp) and isinstance(v.op, ast.Mult)]
-    cut = [v for st, v in kd if isinstance(v, ast.Subscript)]
-    # SZ = the local holding len(data)
-    SZ = next((dotted(st.targets[0]) for st in statements(f.node) if isinstance(st, ast.Assign) and pmatch("len($d)", st.value, {"d": data}) is not None), "size")
-    t_ok = len(tile) == 1 and pmatch("$k * ($s // len($k) + 1)", tile[0], {"k": key, "s": SZ}) is not None
-    c_ok = len(cut) == 1 and pmatch("$k[:$s]", cut[0], {"k": key, "s": SZ}) is not None
-    order_ok = False
-    if t_ok and c_ok:
-        tn = cfg.node([st for st, v in kd if v is tile[0]][0])
-        cn = cfg.node([st for st, v in kd if v is cut[0]][0])
-        order_ok = not cfg.reaches(cn, tn) and all(cfg.dominates(cn, cfg.node(r)) for r in rets if dotted(r.value) != data)
-    ctx.ob("R1", "ABS", f, "key tiled then cut to size", t_ok and c_ok and order_ok, f"tiling key * (size // len(key) + 1)={t_ok}; cut key[:size]={c_ok}; cut after tiling and before the XOR={order_ok}")
-    g_ok = bool(tile) and guarded_by(ctx, f, tile[0], lambda t: True if pmatch("len($k) < $s", t, {"k": key, "s": SZ}) is not None else None)
-    ctx.ob("R1", "ABS", f, "tiling guard", bool(g_ok), "key is tiled only when shorter than the data")
+            ctx.ob("R1", "ABS", f, "return int.to_bytes(.., len(data), ..)", True, f"result length is len({data}) on all {checked} probed length combinations; value is from_bytes({data}) ^ from_bytes(keystream) with one byte order {orders[0]}", node)
+        if key_bad:
+            ctx.ob("R1", "ABS", f, "key tiled then cut to size", False, f"the key operand of the XOR must be the key repeated and cut to exactly len({data}) bytes: {key_bad}", node)
+        elif undec and "keystream" in undec:
+            ctx.undecided("R1", "ABS", f, "key tiled then cut to size", undec, node)
+        elif not undec:
+            ctx.ob("R1", "ABS", f, "key tiled then cut to size", True, f"the key operand equals (key * ceil)[:len({data})] on all {checked} probed length combinations (len(data) 0..9, len(key) 1..7)", node)
+
+
+# ===================================================================================================== R2 pack / unpack
+def _partial_target(ctx, mod, name, depth=0):
+    """Module-level `name` -> (base function name, bound keyword constants) through partial(..) chains, plain aliases and
+    one-line wrapper functions/lambdas; None when the definition has another shape."""
+    if depth > 6:
+        return None
+    if name in mod.funcs and name not in mod.consts:
+        fn = mod.funcs[name].node
+        if name in ("pack", "unpack"):
+            return name, {}, []
+        try:
+            _ex, states = _paths(fn)
+        except (_Unsupported, RecursionError):
+            return None
+        rets = [s for s in states if s.end[0] == "return"]
+        if len(rets) != 1 or len(states) != 1:
+            return None
+        return _wrapper_call(ctx, mod, rets[0].end[1], params(fn), depth)
+    val = mod.consts.get(name)
+    if val is None:
+        return None
+    if isinstance(val, ast.Name):
+        return _partial_target(ctx, mod, val.id, depth + 1)
+    if isinstance(val, ast.Lambda):
+        return _wrapper_call(ctx, mod, val.body, params(val), depth)
+    if isinstance(val, ast.Call) and dotted(val.func) in ("partial", "functools.partial") and val.args and isinstance(val.args[0], ast.Name):
+        base = _partial_target(ctx, mod, val.args[0].id, depth + 1)
+        if base is None or len(val.args) > 1 or any(k.arg is None for k in val.keywords):
+            return None
+        tgt, kws, passed = base
+        kws = dict(kws)
+        for k in val.keywords:
+            kws[k.arg] = k.value
+        return tgt, kws, passed
+    return None
+
+
+def _wrapper_call(ctx, mod, v, ps, depth):
+    """`lambda data: unpack(data, size=1)` / def wrappers: one positional pass-through argument, keyword constants."""
+    if not (isinstance(v, ast.Call) and isinstance(v.func, ast.Name) and len(ps) == 1 and len(v.args) >= 1 and _is_param(v.args[0], ps[0])):
+        return None
+    base = _partial_target(ctx, mod, v.func.id, depth + 1)
+    if base is None or any(k.arg is None for k in v.keywords):
+        return None
+    tgt, kws, passed = base
+    fn = mod.funcs[tgt].node
+    names = params(fn)
+    kws = dict(kws)
+    for n, a in zip(names[1:], v.args[1:]):
+        kws[n] = a
+    for k in v.keywords:
+        kws[k.arg] = k.value
+    return tgt, kws, passed
 
 
 def r2(ctx):
     mod = ctx.repo.module("utils")
     n = 0
-    for name, val in sorted(mod.consts.items()):
+    names = sorted(set(mod.consts) | {q for q in mod.funcs if "." not in q})
+    pfn = {"pack": ctx.repo.func("utils.pack"), "unpack": ctx.repo.func("utils.unpack")}
+    defaults = {k: {p: _c(d) for p, d in param_defaults(v.node).items()} for k, v in pfn.items()}
+    for name in names:
         m = re.fullmatch(r"([up])(8|16|32|64)(be)?", name)
-        if not m:
+        m2 = re.fullmatch(r"(un)?pack_be", name)
+        if not m and not m2:
             continue
-        n += 1
-        kind, bits, be = m.group(1), int(m.group(2)), bool(m.group(3))
-        ok = False
-        detail = f"{name} = {src(val)}"
-        if isinstance(val, ast.Call) and dotted(val.func) in ("partial", "functools.partial") and val.args:
-            tgt = dotted(val.args[0])
-            kws = {k.arg: _c(k.value) for k in val.keywords}
-            want_t = "unpack" if kind == "u" else "pack"
-            bo = kws.get("byteorder", "little")
-            ok = tgt == want_t and kws.get("size") == bits // 8 and bo == ("big" if be else "little") and "signed" not in kws
-            detail = f"{name} = partial({tgt}, size={kws.get('size')}, byteorder={bo!r}); required partial({want_t}, size={bits // 8}, byteorder={'big' if be else 'little'!r})"
-        ctx.ob("R2", "TABLE", f"utils.py::{name}", "partial", ok, detail, val)
+        if m:
+            n += 1
+            want_t = "unpack" if m.group(1) == "u" else "pack"
+            want_size, want_bo = int(m.group(2)) // 8, "big" if m.group(3) else "little"
+        else:
+            want_t, want_size, want_bo = ("unpack" if m2.group(1) else "pack"), None, "big"
+        where = f"utils.py::{name}"
+        r = _partial_target(ctx, mod, name)
+        if r is None:
+            ctx.undecided("R2", "TABLE", where, "partial", f"{name} is not a partial(..) chain / alias / one-line wrapper over pack or unpack: {src(mod.consts.get(name))[:100] if name in mod.consts else 'def'}", mod.consts.get(name))
+            continue
+        tgt, kws, _p = r
+        eff = dict(defaults.get(tgt, {}))
+        unknown = []
+        for k, v in kws.items():
+            cv = _c(v)
+            if cv is None and not (isinstance(v, ast.Constant) and v.value is None):
+                unknown.append(k)
+            eff[k] = cv
+        if unknown:
+            ctx.undecided("R2", "TABLE", where, "partial", f"{name}: bound argument(s) {unknown} are not constants", mod.consts.get(name))
+            continue
+        ok = tgt == want_t and eff.get("size") == want_size and eff.get("byteorder") == want_bo and eff.get("signed") is False and set(kws) <= {"size", "byteorder", "signed"}
+        ctx.ob("R2", "TABLE", where, "partial", ok,
+               f"{name} = {tgt}(size={eff.get('size')}, byteorder={eff.get('byteorder')!r}, signed={eff.get('signed')}); required {want_t}(size={want_size}, byteorder={want_bo!r}, signed=False)", mod.consts.get(name))
     ctx.rep.count("pack_unpack_partials", n, floor=14)
-    for name, tgt in (("unpack_be", "unpack"), ("pack_be", "pack")):
-        v = mod.consts.get(name)
-        ok = isinstance(v, ast.Call) and dotted(v.args[0]) == tgt and {k.arg: _c(k.value) for k in v.keywords} == {"byteorder": "big"}
-        ctx.ob("R2", "TABLE", f"utils.py::{name}", "partial", bool(ok), f"{name} = {src(v)}")
-    u = ctx.repo.func("utils.unpack")
-    rets = [s for s in statements(u.node) if isinstance(s, ast.Return)]
-    ok = len(rets) == 1 and src(rets[0].value) == "int.from_bytes(data[:size], byteorder=byteorder, signed=signed)"
-    d = param_defaults(u.node)
-    ok = ok and _c(d.get("byteorder")) == "little" and _c(d.get("signed")) is False
-    ctx.ob("R2", "AGREE", u, "unpack", ok, "unpack passes byteorder/signed through to int.from_bytes over data[:size] (defaults little, unsigned)" if ok else f"unpack is {src(rets[0].value) if rets else None}")
-    p = ctx.repo.func("utils.pack")
-    rets = [s for s in statements(p.node) if isinstance(s, ast.Return)]
-    ok = len(rets) == 1 and src(rets[0].value) == "n.to_bytes(size, byteorder=byteorder, signed=signed)"
-    mins = [s for s in statements(p.node) if isinstance(s, ast.Assign) and dotted(s.targets[0]) == "size"]
-    ok = ok and len(mins) == 1 and src(mins[0].value).replace(" ", "") == "(n.bit_length()+7)//8" and guarded_by(ctx, p, mins[0], lambda t: True if src(t) == "size is None" else None)
-    d = param_defaults(p.node)
-    ok = ok and _c(d.get("byteorder")) == "little" and _c(d.get("signed")) is False
-    ctx.ob("R2", "AGREE", p, "pack", bool(ok), "pack passes byteorder/signed through to int.to_bytes and sizes minimally only when size is None" if ok else "pack shape not recognised")
+
+    # ---- unpack: int.from_bytes(data[:size], byteorder, signed) with the parameters passed through
+    u = pfn["unpack"]
+    ups = params(u.node)
+    ex, states = _try_paths(ctx, "R2", "AGREE", u, "unpack")
+    if states is not None:
+        d = defaults["unpack"]
+        dflt_ok = d.get("byteorder") == "little" and d.get("signed") is False and "size" in d and d.get("size") is None and ups[:1] + sorted(ups[1:]) == ups[:1] + ["byteorder", "signed", "size"]
+        verdict, why = True, []
+        rets = [s for s in states if s.end[0] == "return"]
+        if not rets or any(s.end[0] == "fall" for s in states):
+            verdict, why = False, ["a path does not return a value"]
+        for s in rets:
+            fb = _from_bytes(s.end[1]) if s.end[1] is not None else None
+            if fb is None:
+                verdict, why = None, why + [f"return value `{src(s.end[1])[:80]}` is not int.from_bytes(..)"]
+                continue
+            b = fb["bytes"]
+            cut_ok = False
+            if isinstance(b, ast.Subscript) and isinstance(b.slice, ast.Slice) and _is_param(_strip_view(b.value), ups[0]):
+                lo, hi, stp = b.slice.lower, b.slice.upper, b.slice.step
+                cut_ok = (lo is None or _c(lo) == 0) and hi is not None and _is_param(hi, "size") and (stp is None or _c(stp) == 1)
+            elif _is_param(_strip_view(b), ups[0]):
+                # the whole data: only correct on a path where size is None
+                cut_ok = any(src(a) == "size is None" and pol or src(a) == "size is not None" and not pol for a, pol in s.conds)
+            thru = _is_param(fb["byteorder"], "byteorder") and _is_param(fb["signed"], "signed")
+            if not (cut_ok and thru):
+                verdict = False if verdict is not None else None
+                why.append(f"int.from_bytes({src(b)}, {src(fb['byteorder'])}, signed={src(fb['signed'])})")
+        if verdict is None:
+            ctx.undecided("R2", "AGREE", u, "unpack", "; ".join(why))
+        else:
+            ctx.ob("R2", "AGREE", u, "unpack", bool(verdict and dflt_ok), "unpack passes byteorder/signed through to int.from_bytes over data[:size] (defaults little, unsigned)" if verdict and dflt_ok else f"unpack: {why or 'defaults ' + str(d)}")
+
+    # ---- pack: n.to_bytes(size, byteorder, signed); minimal size exactly when size is None
+    p = pfn["pack"]
+    pps = params(p.node)
+    ex, states = _try_paths(ctx, "R2", "AGREE", p, "pack")
+    if states is not None:
+        d = defaults["pack"]
+        dflt_ok = d.get("byteorder") == "little" and d.get("signed") is False and "size" in d and d.get("size") is None and pps[:1] + sorted(pps[1:]) == pps[:1] + ["byteorder", "signed", "size"]
+        verdict, why = True, []
+        rets = [s for s in states if s.end[0] == "return"]
+        if not rets or any(s.end[0] == "fall" for s in states):
+            verdict, why = False, ["a path does not return a value"]
+        for s in rets:
+            tb = _to_bytes(s.end[1]) if s.end[1] is not None else None
+            if tb is None:
+                verdict, why = None, why + [f"return value `{src(s.end[1])[:80]}` is not <int>.to_bytes(..)"]
+                continue
+            thru = _is_param(tb["value"], pps[0]) and _is_param(tb["byteorder"], "byteorder") and _is_param(tb["signed"], "signed")
+            L = tb["length"]
+            # which case of `size` is this path?
+            envs = []
+            for none in (True, False):
+                env0 = {"size": None if none else 3, "$is_none": none}
+                feas, _u = _feasible(s, env0)
+                if feas:
+                    envs.append(none)
+            len_ok = True
+            for none in envs:
+                if not none:
+                    if not _is_param(L, "size"):
+                        len_ok = False
+                        why.append(f"with a given size the length argument is `{src(L)}`")
+                else:
+                    La = _abstract(L, {f"{pps[0]}.bit_length()": "$b"})
+                    try:
+                        if not all(_ev(La, {"$b": b, "size": None}) == (b + 7) // 8 for b in range(0, 80)):
+                            len_ok = False
+                            why.append(f"with size None the length argument `{src(L)}` is not the minimal byte count (bit_length + 7) // 8")
+                    except _NoEval as x:
+                        if _is_param(L, "size"):
+                            len_ok = False
+                            why.append("with size None the length argument is None")
+                        elif verdict is not False:
+                            verdict = None
+                            why.append(f"minimal size `{src(L)}` not evaluable ({x})")
+            if not envs:
+                verdict = None if verdict is not False else False
+                why.append(f"path conditions {_cond_text(s.conds)} not decidable for size None / given")
+            if not (thru and len_ok):
+                verdict = False
+                if not thru:
+                    why.append(f"{src(tb['value'])}.to_bytes(.., {src(tb['byteorder'])}, signed={src(tb['signed'])})")
+        if verdict is None:
+            ctx.undecided("R2", "AGREE", p, "pack", "; ".join(why))
+        else:
+            ctx.ob("R2", "AGREE", p, "pack", bool(verdict and dflt_ok), "pack passes byteorder/signed through to int.to_bytes and sizes minimally only when size is None" if verdict and dflt_ok else f"pack: {why or 'defaults ' + str(d)}")
+
+
+# ===================================================================================================== R3 checksum8 / classifiers
+def _calls_to(ctx, f, e, fq):
+    """Call nodes inside term `e` whose callee resolves (from f's module) to the repository function `fq`."""
+    out = []
+    for n in ast.walk(e):
+        if isinstance(n, ast.Call):
+            d = dotted(n.func)
+            if d is None:
+                continue
+            s = ctx.rs.lookup_dotted(f.module.name, d)
+            if s is not None and s.kind in ("func", "partial") and s.fq == fq:
+                out.append(n)
+    return out
+
+
+def _codepoint_sum(e, p):
+    """Is `e` the sum of the code points of parameter p without its '/' characters?  True / False (located, wrong) / None."""
+    if not (isinstance(e, ast.Call) and dotted(e.func) == "sum" and len(e.args) == 1 and not e.keywords):
+        return None
+    a = e.args[0]
+    filt = False
+    if isinstance(a, ast.Call) and dotted(a.func) == "map" and len(a.args) == 2 and dotted(a.args[0]) == "ord":
+        t = a.args[1]
+    elif isinstance(a, (ast.GeneratorExp, ast.ListComp)) and len(a.generators) == 1 and isinstance(a.generators[0].target, ast.Name):
+        g = a.generators[0]
+        v = g.target.id
+        if not (isinstance(a.elt, ast.Call) and dotted(a.elt.func) == "ord" and len(a.elt.args) == 1 and _is_param(a.elt.args[0], v)):
+            return None
+        t = g.iter
+        for c in g.ifs:
+            try:
+                if [ch for ch in "/aZ0~" if _ev(c, {v: ch})] == list("aZ0~"):
+                    filt = True
+                else:
+                    return False
+            except _NoEval:
+                return None
+    else:
+        return None
+    # t: the text, with '/' removed unless filtered above
+    if isinstance(t, ast.Call) and isinstance(t.func, ast.Attribute) and t.func.attr == "replace" and _is_param(t.func.value, p):
+        args = [_c(x) for x in t.args]
+        return args[:2] == ["/", ""] and len(args) == 2
+    if isinstance(t, ast.Call) and isinstance(t.func, ast.Attribute) and t.func.attr == "join" and _c(t.func.value) == "" and len(t.args) == 1 \
+            and isinstance(t.args[0], ast.Call) and isinstance(t.args[0].func, ast.Attribute) and t.args[0].func.attr == "split" and _is_param(t.args[0].func.value, p):
+        return [_c(x) for x in t.args[0].args] == ["/"]
+    if _is_param(t, p):
+        return filt
+    return None if not _mentions(t, p) else None
+
+
+_PROBE_CHARS = [chr(i) for i in range(0, 0x180)] + ["٠", "é", "Ⅷ", "Ａ", "٣", "²"]
+
+
+_ALNUM62 = set("ABCDEFGHIJKLMNOPQRSTUVWXYZabcdefghijklmnopqrstuvwxyz0123456789")
+
+
+def _x64_want(s):
+    return len(s) == 5 and s[0] == "/" and all(c in _ALNUM62 for c in s[1:])
+
+
+def _x64_probes():
+    probes = ["", "/", "a", "/a", "/ab", "/abc", "/abcd", "/abcde", "/abcdef", "abcde", "a/bcd", "x/abcd", "//abcd", "/abcd/", "/abcd ", " /abcd", "/ab d", "/0000", "/ZZZZ", "/zzzz", "/a1B2", "/abcd\x00", "//abc", "/abc/"]
+    for pos in range(5):
+        for ch in _PROBE_CHARS:
+            if ch == "\n" and pos == 4:
+                continue
+            s = list("/a0Zz")
+            s[pos] = ch
+            probes.append("".join(s))
+    return probes
+
+
+def _x64_language_ok(kind, pattern, flags=0):
+    """Does the regular expression, used with re.<kind>, accept exactly '/' + four ASCII alphanumerics?  (A trailing
+    newline after `$` is the documented quirk of `$` and is not probed.)"""
+    try:
+        rx = re.compile(pattern, flags)
+    except (re.error, TypeError, ValueError):
+        return False, "pattern does not compile"
+    fn = getattr(rx, kind)
+    want, probes = _x64_want, _x64_probes()
+    for s in probes:
+        if bool(fn(s)) != want(s):
+            return False, f"{s!r} is {'accepted' if fn(s) else 'rejected'}"
+    return True, ""
+
+
+def _re_flags(node):
+    """Constant value of a `flags` argument (re.I | re.A ...), 0 when absent, None when not constant."""
+    if node is None:
+        return 0
+    binds, env = {}, {}
+    for n in ast.walk(node):
+        d = dotted(n)
+        if d and d.startswith("re.") and isinstance(getattr(re, d[3:], None), re.RegexFlag):
+            binds[d] = "$" + d.replace(".", "_")
+            env[binds[d]] = int(getattr(re, d[3:]))
+    try:
+        v = _ev(_abstract(node, binds), env)
+    except _NoEval:
+        return None
+    return int(v) if isinstance(v, int) else None
+
+
+def _regex_calls(ctx, f, e, p):
+    """Regex membership tests of parameter p inside term e: [(call node, kind, pattern, flags)] (pattern None = unknown)."""
+    out = []
+    mod = f.module
+    for n in ast.walk(e):
+        if not (isinstance(n, ast.Call) and isinstance(n.func, ast.Attribute) and n.func.attr in ("match", "fullmatch", "search")):
+            continue
+        recv = n.func.value
+        if dotted(recv) == "re":
+            b = _callargs(n, ["pattern", "string", "flags"])
+            if b is None or "string" not in b or not _is_param(b["string"], p):
+                continue
+            out.append((n, n.func.attr, _c(b.get("pattern")), _re_flags(b.get("flags"))))
+        else:
+            comp = recv
+            if isinstance(recv, ast.Name) and recv.id in mod.consts:
+                comp = mod.consts[recv.id]
+            if isinstance(comp, ast.Call) and dotted(comp.func) == "re.compile":
+                b = _callargs(comp, ["pattern", "flags"])
+                b2 = _callargs(n, ["string"])
+                if b is None or b2 is None or not _is_param(b2.get("string"), p):
+                    continue
+                out.append((n, n.func.attr, _c(b.get("pattern")), _re_flags(b.get("flags"))))
+    return out
 
 
 def r3(ctx):
+    # ---- checksum8: 0 below four characters, else the code point sum without '/' modulo 256
     c8 = ctx.repo.func("utils.checksum8")
-    txt = [src(s) for s in statements(c8.node) if not isinstance(s, ast.Expr)]
     p = params(c8.node)[0]
-    short = any(isinstance(s, ast.If) and src(s.test) == f"len({p}) < 4" and len(s.body) == 1 and isinstance(s.body[0], ast.Return) and _c(s.body[0].value) == 0 for s in statements(c8.node))
-    strip = any(isinstance(s, ast.Assign) and src(s.value) == f"{p}.replace('/', '')" for s in statements(c8.node))
-    rets = [s for s in statements(c8.node) if isinstance(s, ast.Return) and not isinstance(s.value, ast.Constant)]
-    mod = len(rets) == 1 and src(rets[0].value) == f"sum(map(ord, {p})) % 256"
-    ctx.ob("R3", "TABLE", c8, "checksum8", short and strip and mod, f"0 below four characters={short}; ignores '/'={strip}; sum of code points modulo 256={mod}")
-    x86 = ctx.repo.func("utils.is_stager_x86")
-    r = [s for s in statements(x86.node) if isinstance(s, ast.Return)]
-    ok = len(r) == 1 and src(r[0].value) == f"checksum8({params(x86.node)[0]}) == 92"
-    ctx.ob("R3", "TABLE", x86, "x86 <=> checksum8 == 92", ok, f"x86 classifier: {src(r[0].value) if r else None}")
-    x64 = ctx.repo.func("utils.is_stager_x64")
-    r = [s for s in statements(x64.node) if isinstance(s, ast.Return)]
-    ok = False
-    if len(r) == 1:
-        v = r[0].value
-        inner = v.args[0] if isinstance(v, ast.Call) and dotted(v.func) == "bool" and v.args else v
-        if isinstance(inner, ast.BoolOp) and isinstance(inner.op, ast.And) and len(inner.values) == 2:
-            a, b = inner.values
-            u = params(x64.node)[0]
-            m_ok = isinstance(b, ast.Call) and dotted(b.func) in ("re.match", "re.fullmatch") and _c(b.args[0]) in ("^/[A-Za-z0-9]{4}$", "/[A-Za-z0-9]{4}") and dotted(b.args[1]) == u
-            if m_ok and dotted(b.func) == "re.match":
-                m_ok = _c(b.args[0]).endswith("$")
-            ok = src(a) == f"checksum8({u}) == 93" and m_ok
-    ctx.ob("R3", "TABLE", x64, "x64 <=> checksum8 == 93 and /[A-Za-z0-9]{4}", ok, f"x64 classifier: {src(r[0].value) if r else None}")
+    ex, states = _try_paths(ctx, "R3", "TABLE", c8, "checksum8")
+    if states is not None:
+        bad, undec = [], []
+        rets = [s for s in states if s.end[0] == "return" and s.end[1] is not None]
+        if any(s.end[0] == "fall" or (s.end[0] == "return" and s.end[1] is None) for s in states):
+            bad.append("a path returns no value")
+        lenkey = f"len({p})"
+        for k in range(0, 9):
+            took = 0
+            for s in rets:
+                feas = True
+                for a, pol in s.conds:
+                    t = _truth(_abstract(a, {lenkey: "$len"}), {"$len": k})
+                    if t is None:
+                        if _mentions(a, p):
+                            # a length test on something derived from the text is a different function
+                            derived = [n for n in ast.walk(a) if isinstance(n, ast.Call) and dotted(n.func) == "len" and n.args and not _is_param(n.args[0], p) and _mentions(n.args[0], p)]
+                            (bad if derived else undec).append(f"path condition `{src(a)[:80]}`" + (" measures a transformed text" if derived else " not decidable from the text length"))
+                        continue
+                    if t == "raises" or t != pol:
+                        feas = False
+                        break
+                if not feas:
+                    continue
+                took += 1
+                v = s.end[1]
+                if k < 4:
+                    t = None
+                    try:
+                        t = _ev(_abstract(v, {lenkey: "$len"}), {"$len": k})
+                    except _NoEval:
+                        pass
+                    if t is None or isinstance(t, bool) or t != 0:
+                        if t is None and not isinstance(v, ast.Constant):
+                            # the general formula also applies to short texts
+                            bad.append(f"a text of {k} characters does not yield 0 but `{src(v)[:60]}`")
+                        else:
+                            bad.append(f"a text of {k} characters yields {t!r}, required 0")
+                else:
+                    m = None
+                    if isinstance(v, ast.BinOp) and isinstance(v.op, (ast.Mod, ast.BitAnd)):
+                        try:
+                            m = _ev(v.right)
+                        except _NoEval:
+                            m = None
+                        cs = _codepoint_sum(v.left, p)
+                        good_m = (m == 256) if isinstance(v.op, ast.Mod) else (m == 255)
+                        if cs is None or m is None:
+                            undec.append(f"checksum expression `{src(v)[:100]}` not recognised as a code point sum")
+                        elif not (cs and good_m):
+                            bad.append(f"a text of {k} characters yields `{src(v)[:100]}`: sum of the code points without '/'={cs}, reduced modulo 256={good_m}")
+                    elif isinstance(v, ast.Constant):
+                        bad.append(f"a text of {k} characters yields the constant {v.value!r}")
+                    elif _codepoint_sum(v, p) is not None:
+                        bad.append(f"the code point sum `{src(v)[:80]}` is not reduced modulo 256")
+                    else:
+                        undec.append(f"checksum expression `{src(v)[:100]}` not recognised")
+            if took == 0 and not undec:
+                bad.append(f"no returning path for a text of {k} characters")
+        if bad:
+            ctx.ob("R3", "TABLE", c8, "checksum8", False, "; ".join(dict.fromkeys(bad))[:400])
+        elif undec:
+            ctx.undecided("R3", "TABLE", c8, "checksum8", "; ".join(dict.fromkeys(undec))[:400])
+        else:
+            ctx.ob("R3", "TABLE", c8, "checksum8", True, "0 below four characters; otherwise the sum of the code points of the text without '/' modulo 256 (decided for text lengths 0..8)")
+
+    # ---- classifiers
+    for name, const, text in (("is_stager_x86", 92, "x86 <=> checksum8 == 92"), ("is_stager_x64", 93, "x64 <=> checksum8 == 93 and /[A-Za-z0-9]{4}")):
+        g = ctx.repo.func("utils." + name)
+        u = params(g.node)[0]
+        ex, states = _try_paths(ctx, "R3", "TABLE", g, text)
+        if states is None:
+            continue
+        rets = [s for s in states if s.end[0] == "return" and s.end[1] is not None]
+        if len(rets) != len(states) or not rets:
+            ctx.ob("R3", "TABLE", g, text, False, "a path of the classifier returns no value")
+            continue
+        bad, undec = [], []
+        # unknowns: the checksum of the URI and (x64) the regex verdict
+        binds = {}
+        rx_ok, rx_why, rx_seen = True, "", 0
+        for s in rets:
+            for e in [a for a, _p in s.conds] + [s.end[1]]:
+                for c in _calls_to(ctx, g, e, "utils.checksum8"):
+                    if len(c.args) == 1 and not c.keywords and _is_param(c.args[0], u):
+                        binds[src(c)] = "$c8"
+                    else:
+                        bad.append(f"checksum8 applied to `{src(c.args[0]) if c.args else ''}` instead of the URI")
+                for c, kind, pat, fl in _regex_calls(ctx, g, e, u):
+                    binds[src(c)] = "$rx"
+                    rx_seen += 1
+                    if pat is None or fl is None:
+                        undec.append("regular expression / flags not constant")
+                        continue
+                    ok, why = _x64_language_ok(kind, pat, fl)
+                    if not ok:
+                        rx_ok, rx_why = False, f"re.{kind}({pat!r}): {why}"
+        need_rx = name == "is_stager_x64"
+        if need_rx and rx_seen and not rx_ok:
+            bad.append(f"the pattern does not accept exactly '/' + four ASCII alphanumerics ({rx_why})")
+        for c8v in range(256):
+            for rxv in ((False, True) if need_rx else (False,)):
+                env = {"$c8": c8v, "$rx": (True if rxv else None)}
+                got = []
+                for s in rets:
+                    feas = True
+                    for a, pol in s.conds:
+                        t = _truth(_abstract(a, binds), env)
+                        if t is None:
+                            undec.append(f"path condition `{src(a)[:80]}` not decidable")
+                        elif t == "raises" or t != pol:
+                            feas = False
+                            break
+                    if feas:
+                        got.append(_truth(_abstract(s.end[1], binds), env))
+                want = c8v == const and (rxv or not need_rx)
+                if any(x is None for x in got):
+                    undec.append(f"classifier value `{src(rets[0].end[1])[:100]}` not evaluable")
+                elif any(x != want for x in got) and not (need_rx and not rx_seen):
+                    bad.append(f"checksum8 == {c8v}" + (f", pattern {'matches' if rxv else 'does not match'}" if need_rx else "") + f": classifier is {got[0]}, required {want}")
+                if bad or undec:
+                    break
+            if bad or undec:
+                break
+        if need_rx and not rx_seen and not bad:
+            # no regular expression: decide the shape test of the URI directly on the probe strings (checksum fixed to 93)
+            undec = []
+            for probe in _x64_probes():
+                env = {"$c8": const, u: probe}
+                got = []
+                for s in rets:
+                    ts = [_truth(_abstract(a, binds), env) for a, _pol in s.conds]
+                    if any(t is None for t in ts):
+                        got.append(None)
+                    elif all(t == pol for t, (_a, pol) in zip(ts, s.conds)):
+                        got.append(_truth(_abstract(s.end[1], binds), env))
+                if any(x is None for x in got):
+                    undec.append("no regular expression test of the URI found and the URI shape test is not evaluable")
+                    break
+                if any(x != _x64_want(probe) for x in got):
+                    bad.append(f"with checksum8 == {const} the URI {probe!r} is {'accepted' if got[0] is True else 'rejected' if got[0] is False else 'an error'}; required: exactly '/' + four ASCII alphanumerics")
+                    break
+        if bad:
+            ctx.ob("R3", "TABLE", g, text, False, "; ".join(dict.fromkeys(bad))[:400])
+        elif undec:
+            ctx.undecided("R3", "TABLE", g, text, "; ".join(dict.fromkeys(undec))[:400])
+        else:
+            ctx.ob("R3", "TABLE", g, text, True, f"true exactly when checksum8(uri) == {const}" + (" and the URI is '/' + four ASCII alphanumerics (pattern probed position-wise over 390 characters and lengths 0..7)" if need_rx else "") + " (decided for all 256 checksum values)")
+
+
+# ===================================================================================================== R4 random_stager_uri
+_STRING_CONSTS = {
+    "string.ascii_letters": "abcdefghijklmnopqrstuvwxyzABCDEFGHIJKLMNOPQRSTUVWXYZ", "string.ascii_lowercase": "abcdefghijklmnopqrstuvwxyz",
+    "string.ascii_uppercase": "ABCDEFGHIJKLMNOPQRSTUVWXYZ", "string.digits": "0123456789", "string.hexdigits": "0123456789abcdefABCDEF",
+    "string.octdigits": "01234567", "string.punctuation": "!\"#$%&'()*+,-./:;<=>?@[\\]^_`{|}~", "string.whitespace": " \t\n\r\x0b\x0c",
+}
+_STRING_CONSTS["string.printable"] = _STRING_CONSTS["string.digits"] + _STRING_CONSTS["string.ascii_letters"] + _STRING_CONSTS["string.punctuation"] + _STRING_CONSTS["string.whitespace"]
+_ALNUM = set(_STRING_CONSTS["string.ascii_letters"] + _STRING_CONSTS["string.digits"])
+
+
+def _alphabet(e, mod=None, depth=0):
+    """Characters of an alphabet expression (string module constants, literals, concatenation, module-level constants of
+    the analysed module) or None."""
+    if mod is not None and depth < 4:
+        class C(ast.NodeTransformer):
+            stack = []
+
+            def visit_Name(self, n):
+                if isinstance(n.ctx, ast.Load) and n.id in mod.consts and n.id not in self.stack and len(self.stack) < 4:
+                    self.stack.append(n.id)
+                    r = self.visit(copy.deepcopy(mod.consts[n.id]))
+                    self.stack.pop()
+                    return r
+                return n
+
+        e = C().visit(copy.deepcopy(e))
+    binds = {}
+    for n in ast.walk(e):
+        d = dotted(n)
+        if d in _STRING_CONSTS:
+            binds[d] = "$" + d.replace(".", "_")
+        elif d is not None and "string." + d in _STRING_CONSTS and isinstance(n, ast.Name):
+            binds[d] = "$string_" + d
+    env = {v: _STRING_CONSTS["string." + v[len("$string_"):]] for v in binds.values()}
+    try:
+        v = _ev(_abstract(e, binds), env)
+    except _NoEval:
+        return None
+    if isinstance(v, (str, list, tuple, set)) and all(isinstance(c, str) and len(c) == 1 for c in v):
+        return set(v)
+    return None
+
+
+def _candidate_shape(v, length, mod=None):
+    """`'/' + ''.join(random.choice(A) for _ in range(length))` and equivalents -> (prefix ok, count ok, alphabet set|None)
+    or None when the term has another shape."""
+    parts = []
+    if isinstance(v, ast.BinOp) and isinstance(v.op, ast.Add):
+        parts = [v.left, v.right]
+    elif isinstance(v, ast.JoinedStr) and len(v.values) == 2 and isinstance(v.values[1], ast.FormattedValue) and v.values[1].conversion == -1 and v.values[1].format_spec is None:
+        parts = [v.values[0], v.values[1].value]
+    if len(parts) != 2:
+        return None
+    prefix = _c(parts[0])
+    body = parts[1]
+    if not (isinstance(body, ast.Call) and isinstance(body.func, ast.Attribute) and body.func.attr == "join" and _c(body.func.value) == "" and len(body.args) == 1):
+        return None
+    a = body.args[0]
+    alpha = count = None
+    if isinstance(a, (ast.GeneratorExp, ast.ListComp)) and len(a.generators) == 1 and not a.generators[0].ifs:
+        g = a.generators[0]
+        e = a.elt
+        if isinstance(e, ast.Call) and dotted(e.func) in ("random.choice", "choice", "secrets.choice", "random.SystemRandom().choice") and len(e.args) == 1 and not (_names(e.args[0]) & set(_target_names(g.target))):
+            alpha = e.args[0]
+            count = ast.Call(func=ast.Name(id="len", ctx=ast.Load()), args=[g.iter], keywords=[])
+    elif isinstance(a, ast.Call) and dotted(a.func) in ("random.choices", "choices") and a.args:
+        b = _callargs(a, ["population", "weights", "cum_weights", "k"])
+        if b is not None and "weights" not in b and "cum_weights" not in b:
+            alpha, count = b["population"], b.get("k", ast.Constant(value=1))
+    elif isinstance(a, ast.Call) and dotted(a.func) in ("random.sample", "sample"):
+        return ("/" == prefix, False, None, "random.sample draws without replacement")
+    if alpha is None:
+        return None
+    try:
+        cnt_ok = all(_ev(count, {length: k}) == k for k in range(3, 12))
+    except _NoEval:
+        return None
+    return (prefix == "/", cnt_ok, _alphabet(alpha, mod), src(alpha))
+
+
+def _filtered_next(v):
+    """`next(u for u in it if C(u))` / `next(filter(C, it))` -> the callee expression C, else None."""
+    if not (isinstance(v, ast.Call) and dotted(v.func) == "next" and len(v.args) == 1 and not v.keywords):
+        return None
+    g = v.args[0]
+    if isinstance(g, ast.GeneratorExp) and len(g.generators) == 1 and isinstance(g.generators[0].target, ast.Name) and _is_param(g.elt, g.generators[0].target.id):
+        var = g.generators[0].target.id
+        for c in g.generators[0].ifs:
+            if isinstance(c, ast.Call) and len(c.args) == 1 and not c.keywords and _is_param(c.args[0], var):
+                return c.func
+        return None
+    if isinstance(g, ast.Call) and dotted(g.func) == "filter" and len(g.args) == 2:
+        return g.args[0]
+    return None
 
 
 def r4(ctx):
     f = ctx.repo.func("utils.random_stager_uri")
-    cfg = ctx.cfg(f)
-    rets = cfg.return_stmts()
-    SEL = next((dotted(st.targets[0]) for st in statements(f.node) if isinstance(st, ast.Assign) and isinstance(st.value, ast.IfExp) and "is_stager" in src(st.value)), "is_stager")
-    sel = [v for st, v in assignments_to(f.node, SEL)]
-    sel_ok = len(sel) == 1 and isinstance(sel[0], ast.IfExp) and src(sel[0]) == "is_stager_x64 if x64 else is_stager_x86"
-    ctx.ob("R4", "AGREE", f, "is_stager = is_stager_x64 if x64 else is_stager_x86", sel_ok, f"classifier selection: {[src(s) for s in sel]}")
-    for r in rets:
-        name = dotted(r.value)
-        ok = name is not None and guarded_by(ctx, f, r, lambda t: True if src(t) == f"{SEL}({name})" else None)
-        # and uri is not rebound between the test and the return
-        ctx.ob("R4", "DOM", f, "return <uri>", bool(ok), "a URI is returned only on the true edge of its own classifier" if ok else "URI returned without passing is_stager(uri)", r)
-    ch = [st.value for st in statements(f.node) if isinstance(st, ast.Assign) and "string." in src(st.value)]
-    ok = len(ch) == 1 and src(ch[0]) in ("string.ascii_letters + string.digits", "string.digits + string.ascii_letters")
-    ctx.ob("R4", "TABLE", f, "alphabet", ok, "alphabet is ASCII letters + digits (within the x64 class [A-Za-z0-9])")
-    UV = dotted(rets[0].value) if rets else "uri"
-    uri = [v for st, v in assignments_to(f.node, UV)]
-    ok = len(uri) == 1 and src(uri[0]).startswith("'/' + ''.join(") and "range(length)" in src(uri[0])
-    ctx.ob("R4", "AGREE", f, "uri = '/' + length chars", ok, "candidate URIs are '/' followed by `length` alphabet characters")
-    pre = [(src(s.test), raise_class(s.body[0])) for s in f.node.body if isinstance(s, ast.If) and s.body and isinstance(s.body[0], ast.Raise)]
-    loop = [s for s in f.node.body if isinstance(s, ast.While)]
-    before = all(f.node.body.index(s) < f.node.body.index(loop[0]) for s in f.node.body if isinstance(s, ast.If) and s.body and isinstance(s.body[0], ast.Raise)) if loop else False
-    from csverif.astutil import conjuncts as _cj
-    guards = [(s2.test, raise_class(s2.body[0])) for s2 in f.node.body if isinstance(s2, ast.If) and s2.body and isinstance(s2.body[0], ast.Raise)]
-    g1 = any(rc == "ValueError" and any(isinstance(op, ast.Lt) and dotted(l) == "length" and _c(r) == 3 for l, op, r in compare_parts(t)) for t, rc in guards)
-    g2 = any(rc == "ValueError" and any(dotted(c) == "x64" for c in _cj(t)) and any(isinstance(op, ast.NotEq) and dotted(l) == "length" and _c(r) == 4 for c in _cj(t) for l, op, r in compare_parts(c)) for t, rc in guards)
-    ok = g1 and g2 and len(guards) == 2 and before
-    ctx.ob("R4", "DOM", f, "preconditions", ok, f"argument checks {pre} precede the sampling loop={before}")
+    ps = params(f.node)
+    if "x64" not in ps or "length" not in ps:
+        ctx.undecided("R4", "AGREE", f, "return <uri>", f"the generator no longer has the keyword parameters x64 and length: {ps}")
+        return
+    want = {True: "utils.is_stager_x64", False: "utils.is_stager_x86"}
+    cls = set(want.values())
+    sel_bad, dom_bad, dom_und, pre_bad, shape = [], [], [], [], {}
+    nret = 0
+    for x64 in (True, False):
+        ex, states = _try_paths(ctx, "R4", "DOM", f, "return <uri>", preset={"x64": ast.Constant(value=x64)}, resolver=_helper_resolver(ctx, f, cls | {"utils.checksum8"}))
+        if states is None:
+            return
+        rets = [s for s in states if s.end[0] == "return"]
+        if any(s.end[0] == "fall" for s in states):
+            dom_bad.append(f"x64={x64}: a path leaves the generator without returning a URI")
+        for s in rets:
+            nret += 1
+            v = s.end[1]
+            if v is None:
+                dom_bad.append(f"x64={x64}: a path returns no URI")
+                continue
+            # `return random_stager_uri(x64=.., length=..)` (retry by recursion): covered by induction when x64 is passed on
+            if isinstance(v, ast.Call) and dotted(v.func) == f.qualname and not v.args:
+                kw = {k.arg: k.value for k in v.keywords}
+                if isinstance(kw.get("x64"), ast.Constant) and kw["x64"].value is x64:
+                    nret -= 1
+                    continue
+            # `return next(u for u in <candidates> if is_stager(u))` / `next(filter(is_stager, <candidates>))`
+            fn_ = _filtered_next(v)
+            if fn_ is not None:
+                d = dotted(fn_)
+                sym = ctx.rs.lookup_dotted(f.module.name, d) if d else None
+                fq = sym.fq if sym is not None and sym.kind in ("func", "partial") else None
+                if fq == want[x64]:
+                    continue
+                if fq in cls:
+                    sel_bad.append(f"x64={x64}: the returned URI passed {fq} instead of {want[x64]}")
+                    continue
+            kv = _k(v)
+            tests = []  # (resolved classifier fq, polarity, same value?)
+            opaque = []
+            for a, pol in s.conds:
+                fq = None
+                if isinstance(a, ast.Call):
+                    d = dotted(a.func)
+                    sym = ctx.rs.lookup_dotted(f.module.name, d) if d else None
+                    fq = sym.fq if sym is not None and sym.kind in ("func", "partial") else None
+                if fq in cls and len(a.args) == 1 and not a.keywords:
+                    tests.append((fq, pol, _k(a.args[0]) == kv))
+                elif (any(_k(n) == kv for n in ast.walk(a)) or (isinstance(v, ast.Name) and _mentions(a, v.id))) and _could_classify(a):
+                    opaque.append(a)
+            pos = [t for t in tests if t[1] and t[2]]
+            if any(t[0] == want[x64] for t in pos):
+                pass
+            elif pos:
+                sel_bad.append(f"x64={x64}: the returned URI passed {pos[0][0]} instead of {want[x64]}")
+            elif any(t[0] == want[x64] and not t[1] and t[2] for t in tests):
+                dom_bad.append(f"x64={x64}: a URI that FAILED {want[x64]} is returned (path: {_cond_text(s.conds)[-3:]})")
+            elif any(t[1] and not t[2] for t in tests):
+                dom_bad.append(f"x64={x64}: the classifier was applied to another value than the one returned (`{src(v)[:60]}`)")
+            elif opaque:
+                dom_und.append(f"x64={x64}: the returned URI is guarded by `{src(opaque[0])[:80]}`, which is not a direct classifier call")
+            elif not tests and any(dotted(n) is not None and "@" not in dotted(n) and getattr(ctx.rs.lookup_dotted(f.module.name, dotted(n)), "fq", None) == want[x64] for n in ast.walk(v) if isinstance(n, (ast.Name, ast.Attribute))):
+                dom_und.append(f"x64={x64}: the returned expression `{src(v)[:80]}` uses the classifier in a way the rule does not model")
+            else:
+                dom_bad.append(f"x64={x64}: `{src(v)[:60]}` is returned without passing {want[x64]} (path: {_cond_text(s.conds)[-3:]})")
+            # admitted lengths on this path
+            admitted = []
+            for k in range(-3, 13):
+                feas = True
+                for a, pol in s.conds:
+                    if _names(a) <= {"length"}:
+                        t = _truth(a, {"length": k})
+                        if t is None:
+                            continue
+                        if t == "raises" or t != pol:
+                            feas = False
+                            break
+                if feas:
+                    admitted.append(k)
+            lim = [k for k in admitted if k < 3 or (x64 and k != 4)]
+            if lim:
+                pre_bad.append(f"x64={x64}: a URI is generated for length {lim[:4]}")
+            # candidate shape (expand a havoc'd loop symbol to the definition that reaches the loop end)
+            cand = v
+            if isinstance(v, ast.Name) and "@" in v.id:
+                nm, _, k = v.id.partition("@")
+                lp = ex.loops.get(int(k)) if k.isdigit() else None
+                if lp is not None:
+                    defs = {src(b.env[nm]): b.env[nm] for b in lp.iters if nm in b.env and not (isinstance(b.env[nm], ast.Name) and b.env[nm].id == v.id)}
+                    if lp.pre.get(nm) is not None:
+                        defs[src(lp.pre[nm])] = lp.pre[nm]
+                    if len(defs) == 1:
+                        cand = list(defs.values())[0]
+            shape[src(cand)] = _candidate_shape(cand, "length", f.module)
+    if dom_bad:
+        ctx.ob("R4", "DOM", f, "return <uri>", False, "; ".join(dict.fromkeys(dom_bad))[:400])
+    elif dom_und:
+        ctx.undecided("R4", "DOM", f, "return <uri>", "; ".join(dict.fromkeys(dom_und))[:400])
+    else:
+        ctx.ob("R4", "DOM", f, "return <uri>", nret > 0, f"every one of the {nret} returning paths returns the very value that passed a classifier call on its true edge")
+    ctx.ob("R4", "AGREE", f, "is_stager = is_stager_x64 if x64 else is_stager_x86", not sel_bad, "the classifier a returned URI passed is is_stager_x64 when x64 is set and is_stager_x86 otherwise" if not sel_bad else "; ".join(dict.fromkeys(sel_bad))[:300])
+    ctx.ob("R4", "DOM", f, "preconditions", not pre_bad, "URIs are only generated for length >= 3, and for x64 only for length == 4 (lengths -3..12 decided on the path conditions)" if not pre_bad else "; ".join(dict.fromkeys(pre_bad))[:300])
+    # shape of the candidates
+    shapes = list(shape.items())
+    if not shapes or any(v is None for _t, v in shapes):
+        t = next((t for t, v in shapes if v is None), "")
+        ctx.undecided("R4", "AGREE", f, "uri = '/' + length chars", f"candidate expression `{t[:120]}` is not '/' + ''.join(<length random choices>)")
+        ctx.undecided("R4", "TABLE", f, "alphabet", "candidate expression not recognised")
+        return
+    pref_ok = all(v[0] for _t, v in shapes)
+    cnt_ok = all(v[1] for _t, v in shapes)
+    ctx.ob("R4", "AGREE", f, "uri = '/' + length chars", pref_ok and cnt_ok, f"candidate URIs are '/' followed by `length` characters: prefix={pref_ok}, count={cnt_ok}")
+    alphas = [v[2] for _t, v in shapes]
+    if any(a is None for a in alphas):
+        ctx.undecided("R4", "TABLE", f, "alphabet", f"alphabet `{shapes[0][1][3][:80]}` is not a constant string expression")
+    else:
+        ok = all(a and a <= _ALNUM for a in alphas)
+        ctx.ob("R4", "TABLE", f, "alphabet", ok, "alphabet is within ASCII letters + digits (the x64 class [A-Za-z0-9])" if ok else f"alphabet contains {sorted(set().union(*alphas) - _ALNUM)[:8]}, outside [A-Za-z0-9]")
+
+
+# ===================================================================================================== R5 staged beacon gate
+def _has_attr_chain(e, text):
+    return any(isinstance(n, ast.Attribute) and dotted(n) == text for n in ast.walk(e))
+
+
+_STR_TRANSFORMS = {"lower", "upper", "strip", "lstrip", "rstrip", "replace", "split", "rsplit", "partition", "rpartition", "title", "swapcase", "casefold",
+                   "capitalize", "removeprefix", "removesuffix", "translate", "zfill", "center", "ljust", "rjust", "join", "format", "expandtabs"}
+
+
+def _uri_arg_kind(arg, uri):
+    """How a classifier argument relates to the request URI `uri` (dotted text): "exact" (the URI itself, decoded to
+    text at most), "transformed" (string surgery on it: another string is classified), "unknown" (derived in a way the
+    rule does not model), None (unrelated)."""
+    if not _has_attr_chain(arg, uri):
+        return None
+    e = arg
+    while True:
+        if dotted(e) == uri:
+            return "exact"
+        if isinstance(e, ast.Call) and isinstance(e.func, ast.Attribute) and e.func.attr == "decode":
+            e = e.func.value
+        elif isinstance(e, ast.Call) and dotted(e.func) == "str" and e.args:
+            e = e.args[0]
+        else:
+            break
+    for n in ast.walk(arg):
+        if isinstance(n, ast.Call) and isinstance(n.func, ast.Attribute) and n.func.attr in _STR_TRANSFORMS and _has_attr_chain(n.func.value, uri):
+            return "transformed"
+        if isinstance(n, ast.Subscript) and _has_attr_chain(n.value, uri):
+            return "transformed"
+        if isinstance(n, ast.BinOp) and isinstance(n.op, (ast.Add, ast.Mod, ast.Mult)) and (_has_attr_chain(n.left, uri) or _has_attr_chain(n.right, uri)):
+            return "transformed"
+        if isinstance(n, ast.JoinedStr):
+            return "transformed"
+    return "unknown"
 
 
 def r5(ctx):
     f = ctx.repo.func("pcap.BeaconCapture.find_staged_beacon")
-    cfg = ctx.cfg(f)
-    fv = FuncView.of(f.node)
-    resp = params(f.node)[1]
-    calls = [c for c in fn_calls(f.node) if dotted(c.func) == "BeaconConfig.from_bytes"]
-    if len(calls) != 1:
-        ctx.ob("R5", "DOM", f, "BeaconConfig.from_bytes", False, f"{len(calls)} extraction calls")
+    ps = params(f.node)
+    resp = ps[1] if len(ps) > 1 else ps[0]
+    TEXT = "from_bytes dominated by a positive stager test"
+    ex, states = _try_paths(ctx, "R5", "DOM", f, TEXT, resolver=_helper_resolver(ctx, f, {"utils.is_stager_x86", "utils.is_stager_x64", "utils.checksum8", "beacon.BeaconConfig"}))
+    if states is None:
         return
-    sink = cfg.node(fv.stmt_of(calls[0]))
-    spec = specialise(cfg, {f"{resp}.request": True})
-    gate0 = [s2 for s2 in statements(f.node) if isinstance(s2, ast.If) and isinstance(s2.test, ast.UnaryOp) and isinstance(s2.test.op, ast.Not) and isinstance(s2.test.operand, ast.Name)
-             and s2.body and isinstance(s2.body[0], ast.Return)]
-    FLG = gate0[0].test.operand.id if gate0 else "is_stager"
-    sets = [s for s in statements(f.node) if isinstance(s, ast.Assign) and dotted(s.targets[0]) == FLG and is_const(s.value, True)]
-    good = []
-    for s in sets:
-        conds = [(t, n) for t, pol, n in dominating_conditions(ctx, f, s) if pol]
-        st_ok = False
-        for t, n in conds:
-            if isinstance(n, ast.Call) and ctx.rs.resolve_call(f, n).fq in ("utils.is_stager_x86", "utils.is_stager_x64"):
-                a = origin(f.node, n.args[0])
-                st_ok = f"{resp}.request.uri" in src(a)
-        if st_ok:
-            good.append(cfg.node(s))
-    # flag gate: `if not is_stager: return None`
-    gate = [s for s in statements(f.node) if isinstance(s, ast.If) and src(s.test) == f"not {FLG}" and s.body and isinstance(s.body[0], ast.Return)]
-    # with the gate, on every path to the sink is_stager is truthy: require every path to pass a positive assignment,
-    # and the gate to dominate the sink in the specialised graph
-    passes = spec.all_paths_pass(ENTRY, sink, good) if good else False
-    gated = bool(gate) and spec.dominates(cfg.edge_node(gate[0], "false"), sink)
-    inits = [s for s in statements(f.node) if isinstance(s, ast.Assign) and dotted(s.targets[0]) == FLG and is_const(s.value, False)]
-    # flag propagation: the flag is only ever assigned the constants False (reset) and True (under a stager test), the
-    # reset dominates every True-assignment, so "flag truthy at the gate" implies a positive stager test on this call
-    all_sets = [s2 for s2 in statements(f.node) if isinstance(s2, (ast.Assign, ast.AugAssign)) and any(dotted(t) == FLG for t in (s2.targets if isinstance(s2, ast.Assign) else [s2.target]))]
-    only_consts = len(all_sets) == len(inits) + len(good) and len(good) == len(sets)
-    reset_first = bool(inits) and all(cfg.dominates(cfg.node(inits[0]), gnode) for gnode in good)
-    flag_ok = only_consts and reset_first
-    ok = bool(good) and gated and (passes or flag_ok)
-    ctx.ob("R5", "DOM", f, "from_bytes dominated by a positive stager test", ok,
-           f"with a known request: extraction is behind the `not is_stager -> return None` gate={gated}; is_stager is set True only under is_stager_x86/x64(request uri) ({len(good)} sites); every path from the flag reset to the extraction passes one={flag_ok}")
-    if gate:
-        ctx.ob("R5", "EXIT", f, "non-stager -> None", _c(gate[0].body[0].value) is None, "a known non-stager request yields None")
-    body_ok = calls[0].args and src(calls[0].args[0]) == f"{resp}.body"
-    ctx.ob("R5", "AGREE", f, "BeaconConfig.from_bytes(response.body)", bool(body_ok), "the beacon is extracted from the response body")
+    req = f"{resp}.request"
+    uri = f"{resp}.request.uri"
+
+    def sinks(e):
+        out = []
+        for n in ast.walk(e):
+            if isinstance(n, ast.Call):
+                d = dotted(n.func)
+                s = ctx.rs.lookup_dotted(f.module.name, d) if d else None
+                if s is not None and s.kind == "func" and s.fq.startswith("beacon.BeaconConfig.from_"):
+                    out.append(n)
+        return out
+
+    def request_test(a, pol):
+        """Does the condition say the request is known (True) / unknown (False)?  None: not a request test."""
+        if dotted(a) == req:
+            return pol
+        if isinstance(a, ast.Compare) and len(a.ops) == 1 and dotted(a.left) == req and isinstance(a.comparators[0], ast.Constant) and a.comparators[0].value is None:
+            if isinstance(a.ops[0], (ast.Is, ast.Eq)):
+                return not pol
+            if isinstance(a.ops[0], (ast.IsNot, ast.NotEq)):
+                return pol
+        return None
+
+    bad, undec, exits = [], [], []
+    nsink = 0
+    args = []
+    for s in states:
+        calls = [(st, c) for st, v in s.events for c in sinks(v)]
+        known = None
+        tests = {}
+        opaque = []
+        transformed = []
+        for a, pol in s.conds:
+            r = request_test(a, pol)
+            if r is not None:
+                known = r if known is None else (known and r)
+                continue
+            fq = None
+            if isinstance(a, ast.Call):
+                d = dotted(a.func)
+                sym = ctx.rs.lookup_dotted(f.module.name, d) if d else None
+                fq = sym.fq if sym is not None and sym.kind in ("func", "partial") else None
+            kind = _uri_arg_kind(a.args[0], uri) if fq in ("utils.is_stager_x86", "utils.is_stager_x64") and len(a.args) == 1 else None
+            if kind == "exact":
+                tests[fq] = pol if fq not in tests else (tests[fq] or pol)
+            elif kind == "transformed":
+                if pol:
+                    transformed.append(a)
+            elif kind == "unknown":
+                opaque.append(a)
+            elif fq in ("utils.is_stager_x86", "utils.is_stager_x64"):
+                # a classifier applied to something else: only unclear when that something still comes from the request
+                if any(_has_attr_chain(x, req) for x in a.args):
+                    opaque.append(a)
+            elif _has_attr_chain(a, req) and _could_classify(a):
+                opaque.append(a)
+        positive = any(tests.values())
+        negative = tests.get("utils.is_stager_x86") is False and tests.get("utils.is_stager_x64") is False
+        if known is False:
+            continue
+        if negative and s.end[0] == "return" and not calls:
+            exits.append(s)
+        if not calls:
+            continue
+        nsink += 1
+        args.extend(c for _st, c in calls)
+        if positive:
+            continue
+        why = f"path {_cond_text(s.conds)[:5]} reaches {src(calls[0][1])[:60]}"
+        if transformed and not negative:
+            bad.append(f"the classifier is applied to a transformed URI `{src(transformed[0].args[0])[:80]}`, not to the request URI itself: " + why)
+        elif negative or not opaque:
+            bad.append(("the request URI failed both stager classifiers: " if negative else "no stager test of the request URI: ") + why)
+        else:
+            undec.append(f"guarded by `{src(opaque[0])[:80]}`, not a direct is_stager_x86/x64 call: " + why)
+    total_sinks = sum(1 for s in states for _st, v in s.events for _c in sinks(v))
+    if total_sinks == 0:
+        ctx.undecided("R5", "DOM", f, TEXT, "no BeaconConfig.from_* extraction call found on any path")
+        return
+    if bad:
+        ctx.ob("R5", "DOM", f, TEXT, False, f"with a known request the extraction must only be reachable after is_stager_x86/x64(request uri) was true: {bad[0][:300]}")
+    elif undec:
+        ctx.undecided("R5", "DOM", f, TEXT, undec[0][:300])
+    else:
+        ctx.ob("R5", "DOM", f, TEXT, True, f"every path with a known request that reaches the extraction ({nsink} path(s)) carries a positive is_stager_x86/x64 test of the request URI")
+    if exits:
+        wrong = [s for s in exits if not (s.end[1] is None or (isinstance(s.end[1], ast.Constant) and s.end[1].value is None))]
+        ctx.ob("R5", "EXIT", f, "non-stager -> None", not wrong, "a known non-stager request yields None" if not wrong else f"a known non-stager request yields `{src(wrong[0].end[1])[:80]}`")
+    body_ok = bool(args) and all(c.args and dotted(c.args[0]) == f"{resp}.body" for c in args)
+    if args and not body_ok and not any(c.args and _mentions(c.args[0], resp) for c in args):
+        ctx.undecided("R5", "AGREE", f, "BeaconConfig.from_bytes(response.body)", f"extraction argument `{src(args[0].args[0]) if args[0].args else ''}` is not derived from the response")
+    else:
+        ctx.ob("R5", "AGREE", f, "BeaconConfig.from_bytes(response.body)", body_ok, "the beacon is extracted from the response body" if body_ok else f"the beacon is extracted from `{src(args[0].args[0])[:80] if args and args[0].args else None}`")
+
+
+# ===================================================================================================== R6 NetBIOS
+def _seq_builder(ex, v):
+    """A returned byte sequence as (iterable term, loop target, [element terms per iteration]) from either a
+    comprehension or a list-building loop; None when the term has another shape."""
+    v = _strip_view(v)
+    if isinstance(v, (ast.ListComp, ast.GeneratorExp)):
+        gens = v.generators
+        if any(g.ifs or g.is_async for g in gens) or len(gens) > 2:
+            return None
+        elts = [v.elt]
+        if len(gens) == 2:
+            g2 = gens[1]
+            it2 = g2.iter
+            if isinstance(it2, ast.Call) and dotted(it2.func) == "divmod" and len(it2.args) == 2:
+                items = [ast.BinOp(left=it2.args[0], op=ast.FloorDiv(), right=it2.args[1]), ast.BinOp(left=it2.args[0], op=ast.Mod(), right=it2.args[1])]
+            elif isinstance(it2, (ast.Tuple, ast.List)):
+                items = list(it2.elts)
+            else:
+                return None
+            if not isinstance(g2.target, ast.Name):
+                return None
+            elts = [_subst_name(v.elt, g2.target.id, x) for x in items]
+        return gens[0].iter, gens[0].target, elts
+    if isinstance(v, ast.Name) and "@" in v.id:
+        nm, _, k = v.id.partition("@")
+        lp = ex.loops.get(int(k)) if k.isdigit() else None
+        if lp is None or not isinstance(lp.stmt, ast.For) or lp.exits or len(lp.iters) != 1:
+            return None
+        pre = lp.pre.get(nm)
+        try:
+            if pre is None or len(_ev(pre)) != 0:
+                return None
+        except _NoEval:
+            return None
+        elts = _emissions(lp.iters[0].env.get(nm), v.id)
+        if elts is None:
+            return None
+        # loop target as symbols
+        tgt = copy.deepcopy(lp.stmt.target)
+        for n in ast.walk(tgt):
+            if isinstance(n, ast.Name):
+                n.id = lp.head.get(n.id, n.id)
+        return lp.iter, tgt, elts
+    return None
+
+
+def _subst_name(e, name, repl):
+    class R(ast.NodeTransformer):
+        def visit_Name(self, n):
+            return copy.deepcopy(repl) if n.id == name and isinstance(n.ctx, ast.Load) else n
+
+    return R().visit(copy.deepcopy(e))
+
+
+def _emissions(t, head):
+    """`$append($append(acc@k, a), b)` / `acc@k + [a, b]` / `$extend(acc@k, (a, b))` -> [a, b]."""
+    if isinstance(t, ast.Name):
+        return [] if t.id == head else None
+    if isinstance(t, ast.Call) and dotted(t.func) == "$append" and len(t.args) == 2:
+        base = _emissions(t.args[0], head)
+        return None if base is None else base + [t.args[1]]
+    items = None
+    if isinstance(t, ast.Call) and dotted(t.func) == "$extend" and len(t.args) == 2:
+        base, items = t.args[0], t.args[1]
+    elif isinstance(t, ast.BinOp) and isinstance(t.op, ast.Add):
+        base, items = t.left, t.right
+    if items is None:
+        return None
+    items = _strip_view(items)
+    if not isinstance(items, (ast.Tuple, ast.List)) or any(isinstance(x, ast.Starred) for x in items.elts):
+        return None
+    b = _emissions(base, head)
+    return None if b is None else b + list(items.elts)
+
+
+_OFFSETS = (0, 1, 0x41, 0x61, 0x52, 0x6C, 100, 200, 240)
 
 
 def r6(ctx):
     e, d = ctx.repo.func("utils.netbios_encode"), ctx.repo.func("utils.netbios_decode")
-    ea = {dotted(s.targets[0]): src(s.value) for s in statements(e.node) if isinstance(s, ast.Assign)}
-    order = [src(c.args[0]) for c in fn_calls(e.node) if isinstance(c.func, ast.Attribute) and c.func.attr == "append"]
-    en = {dotted(s.targets[0]): s.value for s in statements(e.node) if isinstance(s, ast.Assign)}
+    enc = dec = None
+    # ---- encoder: per input byte c the symbols (c >> 4) + offset, (c & 15) + offset in this order
+    TE, TD = "encoder nibble order", "decoder nibble order"
+    for g, text in ((e, TE), (d, TD)):
+        gps = params(g.node)
+        ex, states = _try_paths(ctx, "R6", "AGREE", g, text)
+        if states is None:
+            continue
+        rets = [s for s in states if s.end[0] == "return" and s.end[1] is not None]
+        if len(rets) > 1:
+            # an extra shortcut for empty input that returns the empty result does not matter
+            def empty_shortcut(s):
+                try:
+                    if len(_ev(s.end[1], {gps[0]: b""})) != 0:
+                        return False
+                except (_NoEval, TypeError):
+                    return False
+                return _feasible(s, {gps[0]: b""})[0] and not _feasible(s, {gps[0]: b"AB"})[0] and not _feasible(s, {gps[0]: b"ABCD"})[0]
 
-    def plus_off(x):
-        return x.left if isinstance(x, ast.BinOp) and isinstance(x.op, ast.Add) and dotted(x.right) == "offset" else None
-
-    CV = next((dotted(s2.target) for s2 in statements(e.node) if isinstance(s2, ast.For)), "c")
-
-    def is_hi(x):
-        x = plus_off(x)
-        if not (isinstance(x, ast.BinOp) and isinstance(x.op, ast.RShift) and _c(x.right) == 4):
-            return False
-        l = x.left
-        return dotted(l) == CV or (isinstance(l, ast.BinOp) and isinstance(l.op, ast.BitAnd) and dotted(l.left) == CV and _c(l.right) == 0xF0)
-
-    def is_lo(x):
-        x = plus_off(x)
-        return isinstance(x, ast.BinOp) and isinstance(x.op, ast.BitAnd) and dotted(x.left) == CV and _c(x.right) == 0x0F
-
-    hi = [k for k, v in en.items() if is_hi(v)]
-    lo = [k for k, v in en.items() if is_lo(v)]
-    ok = len(hi) == 1 and len(lo) == 1 and order == [hi[0], lo[0]]
-    ctx.ob("R6", "AGREE", e, "encoder nibble order", ok, f"emits high nibble then low nibble, each plus offset: {ea} appended as {order}")
-    da = {dotted(s.targets[0]): src(s.value) for s in statements(d.node) if isinstance(s, ast.Assign)}
-    dn = {dotted(s.targets[0]): s.value for s in statements(d.node) if isinstance(s, ast.Assign)}
-
-    def minus_off(x, idx_src):
-        return isinstance(x, ast.BinOp) and isinstance(x.op, ast.Sub) and src(x.left) == idx_src and dotted(x.right) == "offset"
-
-    IV = next((dotted(s2.target) for s2 in statements(d.node) if isinstance(s2, ast.For)), "i")
-    DP = params(d.node)[0]
-    hi_d = [k for k, v in dn.items() if isinstance(v, ast.BinOp) and isinstance(v.op, ast.LShift) and _c(v.right) == 4 and minus_off(v.left, f"{DP}[{IV}]")]
-    hi_d += [k for k, v in dn.items() if isinstance(v, ast.BinOp) and isinstance(v.op, ast.Mult) and _c(v.right) == 16 and minus_off(v.left, f"{DP}[{IV}]")]
-    lo_d = [k for k, v in dn.items() if minus_off(v, f"{DP}[{IV} + 1]")]
-    app = [src(c.args[0]) for c in fn_calls(d.node) if isinstance(c.func, ast.Attribute) and c.func.attr == "append"]
-    rng = [src(s.iter) for s in statements(d.node) if isinstance(s, ast.For)]
-    ok = len(hi_d) == 1 and len(lo_d) == 1 and app in ([f"{hi_d[0]} + {lo_d[0]}"], [f"{hi_d[0]} | {lo_d[0]}"], [f"{lo_d[0]} + {hi_d[0]}"]) and rng == [f"range(0, len({DP}), 2)"]
-    ctx.ob("R6", "AGREE", d, "decoder nibble order", ok, f"even index is the high nibble (<< 4), odd index the low one, each minus offset: {da}; combined as {app}; stride {rng}")
-    de, dd = _c(param_defaults(e.node).get("offset")), _c(param_defaults(d.node).get("offset"))
+            rets = [s for s in rets if not empty_shortcut(s)]
+        if len(rets) != 1 or any(s.end[0] == "fall" for s in states):
+            ctx.undecided("R6", "AGREE", g, text, f"{len(rets)} returning paths (expected one sequence-building path)")
+            continue
+        sb = _seq_builder(ex, rets[0].end[1])
+        if sb is None:
+            ctx.undecided("R6", "AGREE", g, text, f"result `{src(rets[0].end[1])[:120]}` is neither a comprehension nor a list filled by one for-loop")
+            continue
+        sb = (_unview(sb[0], gps[:1]) if g is d else sb[0], sb[1], [_unview(x, gps[:1]) for x in sb[2]])
+        if g is e:
+            enc = (gps, sb)
+        else:
+            dec = (gps, sb)
+    if enc is not None:
+        (dp, op), (it, tgt, elts) = enc[0][:2], enc[1]
+        src_ok = _is_param(_strip_view(it), dp)
+        if not src_ok:
+            if _mentions(it, dp):
+                ctx.ob("R6", "AGREE", e, TE, False, f"the encoder iterates over a transformed copy of the data: `{src(it)[:80]}`")
+            else:
+                ctx.undecided("R6", "AGREE", e, TE, f"the encoder iterates over `{src(it)[:80]}`, not recognisably the data")
+        elif not isinstance(tgt, ast.Name):
+            ctx.undecided("R6", "AGREE", e, TE, "loop target is not a single byte variable")
+        else:
+            cv = tgt.id
+            bad = und = None
+            if len(elts) != 2:
+                bad = f"{len(elts)} symbol(s) are emitted per input byte, required 2"
+            else:
+                try:
+                    for c in range(256):
+                        for off in _OFFSETS:
+                            got = [_ev(x, {cv: c, op: off}) for x in elts]
+                            if got != [(c >> 4) + off, (c & 15) + off]:
+                                bad = f"byte {c:#x}, offset {off:#x}: emitted {got}, required high nibble + offset then low nibble + offset {[(c >> 4) + off, (c & 15) + off]}"
+                                break
+                        if bad:
+                            break
+                except _Raises as x:
+                    bad = f"symbol expression raises: {x}"
+                except _NoEval as x:
+                    und = f"symbol expressions {[src(x)[:60] for x in elts]} not evaluable ({x})"
+                    if any(_mentions(x, op) and not any(_is_param(n, op) for n in ast.walk(x)) for x in elts):
+                        und = None
+                        bad = "the offset is transformed before use"
+            if bad:
+                ctx.ob("R6", "AGREE", e, TE, False, bad)
+            elif und:
+                # a rewritten parameter shows up as an unevaluable sub-term that still mentions the parameter
+                ctx.undecided("R6", "AGREE", e, TE, und)
+            else:
+                ctx.ob("R6", "AGREE", e, TE, True, f"per input byte the symbols {[src(x) for x in elts]} = (high nibble + offset, low nibble + offset), decided for all 256 bytes and {len(_OFFSETS)} offsets")
+    if dec is not None:
+        (dp, op), (it, tgt, elts) = dec[0][:2], dec[1]
+        bad = und = None
+        roles = {}  # src text of a sub-term -> "$x" / "$y"
+        if len(elts) != 1:
+            bad = f"{len(elts)} bytes are produced per step, required 1"
+        E1 = elts[0] if elts else None
+        if bad is None:
+            tn = _target_names(tgt)
+            if isinstance(it, ast.Call) and dotted(it.func) == "zip" and len(it.args) == 2 and isinstance(tgt, (ast.Tuple, ast.List)) and len(tn) == 2:
+                for name, a in zip(tn, it.args):
+                    a = _strip_view(a) if not isinstance(a, ast.Subscript) else a
+                    okk = isinstance(a, ast.Subscript) and _is_param(_strip_view(a.value), dp) and isinstance(a.slice, ast.Slice) and _c(a.slice.step) == 2 and a.slice.upper is None
+                    lo = (0 if a.slice.lower is None else _c(a.slice.lower)) if okk else None
+                    if lo not in (0, 1):
+                        und = f"pair iteration `{src(it)[:80]}` is not a zip of the even and the odd positions of the data"
+                    roles[name] = "$x" if lo == 0 else "$y"
+                if und is None and sorted(roles.values()) != ["$x", "$y"]:
+                    bad = f"pair iteration `{src(it)[:80]}` does not pair every even position with the following odd one"
+            elif len(tn) == 1 and isinstance(tgt, ast.Name):
+                iv = tgt.id
+                subs = [n for n in ast.walk(E1) if isinstance(n, ast.Subscript) and _mentions(n.value, dp)]
+                for n in subs:
+                    if not _is_param(_strip_view(n.value), dp):
+                        bad = f"the decoder reads a transformed copy of the data: `{src(n.value)[:80]}`"
+                    elif isinstance(n.slice, ast.Slice):
+                        und = f"slice access `{src(n)[:60]}`"
+                if not subs and _mentions(E1, dp) is False:
+                    und = "the decoded byte does not read the data by index"
+                # positions: over an even length L the steps must visit (0,1), (2,3), ...
+                if bad is None and und is None:
+                    itx = _abstract(it, {f"len({dp})": "$len"})
+                    try:
+                        for L in (0, 2, 4, 6, 10):
+                            steps = list(_ev(itx, {"$len": L}))
+                            for j, i in enumerate(steps):
+                                for n in subs:
+                                    pos = _ev(n.slice, {iv: i})
+                                    if pos == 2 * j:
+                                        r = "$x"
+                                    elif pos == 2 * j + 1:
+                                        r = "$y"
+                                    else:
+                                        bad = bad or f"step {j} over {L} symbols reads position {pos}, required {2 * j} and {2 * j + 1}"
+                                        continue
+                                    if roles.setdefault(src(n), r) != r:
+                                        bad = bad or f"`{src(n)}` is not consistently the first/second symbol of a pair"
+                            if len(steps) != L // 2:
+                                bad = bad or f"{len(steps)} steps over {L} symbols (`{src(it)[:60]}`), required {L // 2}"
+                    except _Raises as x:
+                        bad = bad or f"index expression raises: {x}"
+                    except _NoEval as x:
+                        und = f"iteration `{src(it)[:60]}` / index not evaluable ({x})"
+                    if bad is None and und is None and set(roles.values()) != {"$x", "$y"}:
+                        bad = f"a step reads only {sorted(roles)} of its pair"
+            else:
+                und = f"iteration `{src(it)[:80]}` not recognised"
+        if bad is None and und is None:
+            Ea = _abstract(E1, roles) if not all(k.isidentifier() for k in roles) else _subst_roles(E1, roles)
+            try:
+                for c in range(256):
+                    for off in _OFFSETS:
+                        x, y = (c >> 4) + off, (c & 15) + off
+                        got = _ev(Ea, {"$x": x, "$y": y, op: off})
+                        if got != c:
+                            bad = f"symbols ({x:#x}, {y:#x}) at offset {off:#x} decode to {got!r}, required {c:#x} (first symbol is the high nibble, each minus offset)"
+                            break
+                    if bad:
+                        break
+            except _Raises as x:
+                bad = f"decoded byte expression raises: {x}"
+            except _NoEval as x:
+                und = f"decoded byte `{src(E1)[:80]}` not evaluable ({x})"
+                if _mentions(E1, op) and not any(_is_param(n, op) for n in ast.walk(E1)) or any(isinstance(n, ast.Call) and _mentions(n, op) for n in ast.walk(E1)):
+                    und, bad = None, f"the offset is transformed before use in `{src(E1)[:80]}`"
+        if bad:
+            ctx.ob("R6", "AGREE", d, TD, False, bad)
+        elif und:
+            ctx.undecided("R6", "AGREE", d, TD, und)
+        else:
+            ctx.ob("R6", "AGREE", d, TD, True, f"pairs (2j, 2j+1) of the data are combined as `{src(E1)[:80]}`, which gives back every byte from the encoder's two symbols (all 256 bytes, {len(_OFFSETS)} offsets)")
+    de, dd = _c(param_defaults(e.node).get(params(e.node)[1])) if len(params(e.node)) > 1 else None, _c(param_defaults(d.node).get(params(d.node)[1])) if len(params(d.node)) > 1 else None
     ctx.ob("R6", "AGREE", e, "default offset", de == dd == 0x41, f"encoder default offset {de}, decoder {dd}")
-    for g in (e, d):
-        reb = [src(st)[:50] for p_ in params(g.node) for st, v in assignments_to(g.node, p_)]
-        ctx.ob("R6", "AGREE", g, "parameters not rebound", not reb, "data and offset are used as given" if not reb else f"a parameter is rewritten before use ({reb}): the codec is no longer exact for every data/offset")
-    f = ctx.repo.func("utils.xor")
-    reb = [src(st)[:50] for st, v in assignments_to(f.node, params(f.node)[0])]
-    ctx.ob("R1", "AGREE", f, "data not rebound", not reb, "xor works on the data as given" if not reb else f"data is rewritten before the XOR ({reb})")
+
+
+def _subst_roles(e, roles):
+    class R(ast.NodeTransformer):
+        def visit_Name(self, n):
+            return ast.Name(id=roles[n.id], ctx=ast.Load()) if n.id in roles else n
+
+    return R().visit(copy.deepcopy(e))
